@@ -1,4 +1,1495 @@
-From Coq Require Import List Bool Arith ZArith QArith Lia.
+(* C11 -- proofs about Model/Classif.v: the nested-loop matchers (bookkeeping invariant, exhaustiveness of the
+   guarded loops, first-fit over a key-equality condition is maximum, the generic matcher equals its declarative
+   description) and the classification scores (counting definitions, ranges, the perfect case). *)
+From Coq Require Import List Bool Arith ZArith QArith Lia Permutation Psatz.
 From PE Require Import Base.QUtil Model.Classif.
 Import ListNotations.
-Lemma placeholder : True. Proof. exact I. Qed.
+Local Open Scope nat_scope.
+
+(* ------------------------------------------------------------------------------------------ *)
+(* identities                                                                                  *)
+(* ------------------------------------------------------------------------------------------ *)
+Lemma indexed_from_ids : forall l k, map fst (indexed_from k l) = seq k (length l).
+Proof. induction l as [|o t IH]; intros k; simpl; [reflexivity|]. now rewrite IH. Qed.
+
+Lemma indexed_from_objs : forall l k, map snd (indexed_from k l) = l.
+Proof. induction l as [|o t IH]; intros k; simpl; [reflexivity|]. now rewrite IH. Qed.
+
+Lemma indexed_ids l : map fst (indexed l) = seq 0 (length l).
+Proof. apply indexed_from_ids. Qed.
+Lemma indexed_objs l : map snd (indexed l) = l.
+Proof. apply indexed_from_objs. Qed.
+Lemma indexed_NoDup l : NoDup (map fst (indexed l)).
+Proof. rewrite indexed_ids. apply seq_NoDup. Qed.
+Lemma indexed_length l : length (indexed l) = length l.
+Proof. unfold indexed. generalize 0. induction l as [|o t IH]; intros k; simpl; auto. Qed.
+
+Lemma In_indexed_from : forall l k i o, In (i, o) (indexed_from k l) <-> (k <= i /\ nth_error l (i - k) = Some o).
+Proof.
+  induction l as [|x t IH]; intros k i o; simpl.
+  - split; [tauto|]. intros [_ H]. destruct (i - k); discriminate.
+  - rewrite IH. split.
+    + intros [H|[H1 H2]].
+      * inversion H; subst. split; [lia|]. now rewrite Nat.sub_diag.
+      * split; [lia|]. replace (i - k) with (S (i - S k)) by lia. exact H2.
+    + intros [H1 H2]. destruct (Nat.eq_dec i k) as [->|Hne].
+      * rewrite Nat.sub_diag in H2. simpl in H2. left. congruence.
+      * right. split; [lia|]. replace (i - k) with (S (i - S k)) in H2 by lia. exact H2.
+Qed.
+
+(* an object of [indexed l] is exactly (position, element) *)
+Lemma In_indexed l i o : In (i, o) (indexed l) <-> nth_error l i = Some o.
+Proof.
+  unfold indexed. rewrite In_indexed_from, Nat.sub_0_r. split; [tauto|]. intros; split; [lia|assumption].
+Qed.
+
+Lemma ids_inj (L : list iobj) x y : NoDup (map fst L) -> In x L -> In y L -> fst x = fst y -> x = y.
+Proof.
+  induction L as [|a t IH]; simpl; intros ND Hx Hy E; [tauto|].
+  inversion ND as [|? ? Hn ND']; subst.
+  destruct Hx as [->|Hx], Hy as [->|Hy]; auto.
+  - exfalso. apply Hn. rewrite E. now apply in_map.
+  - exfalso. apply Hn. rewrite <- E. now apply in_map.
+Qed.
+
+Lemma mem_id_In i l : mem_id i l = true <-> In i (map fst l).
+Proof.
+  induction l as [|x t IH]; simpl; [split; [discriminate|tauto]|].
+  destruct (Nat.eqb_spec (fst x) i); [tauto|]. rewrite IH. split; [tauto|]. intros [H|H]; [contradiction|assumption].
+Qed.
+
+Lemma mem_id_false i l : mem_id i l = false <-> ~ In i (map fst l).
+Proof. rewrite <- mem_id_In. destruct (mem_id i l); split; congruence. Qed.
+
+Lemma remove_id_split : forall l i l', remove_id i l = Some l' ->
+  exists l1 x l2, l = l1 ++ x :: l2 /\ l' = l1 ++ l2 /\ fst x = i /\ ~ In i (map fst l1).
+Proof.
+  induction l as [|a t IH]; simpl; intros i l' H; [discriminate|].
+  destruct (Nat.eqb_spec (fst a) i) as [E|NE].
+  - inversion H; subst. exists [], a, l'. simpl. tauto.
+  - destruct (remove_id i t) as [t'|] eqn:Ht; [|discriminate]. inversion H; subst.
+    destruct (IH _ _ Ht) as (l1 & x & l2 & -> & -> & Hx & Hn).
+    exists (a :: l1), x, l2. simpl. repeat split; auto. intros [?|?]; [contradiction|auto].
+Qed.
+
+Lemma mem_id_remove : forall l i, mem_id i l = true -> exists l', remove_id i l = Some l'.
+Proof.
+  induction l as [|a t IH]; simpl; intros i H; [discriminate|].
+  destruct (Nat.eqb (fst a) i); [eauto|]. destruct (IH _ H) as [t' ->]. eauto.
+Qed.
+
+Lemma remove_id_mem l i l' : remove_id i l = Some l' -> mem_id i l = true.
+Proof.
+  intros H. destruct (remove_id_split _ _ _ H) as (l1 & x & l2 & -> & _ & Hx & _).
+  apply mem_id_In. rewrite map_app. apply in_or_app. right. simpl. auto.
+Qed.
+
+Lemma remove_id_app_notin l1 x l2 : ~ In (fst x) (map fst l1) -> remove_id (fst x) (l1 ++ x :: l2) = Some (l1 ++ l2).
+Proof.
+  induction l1 as [|a t IH]; simpl; intros H.
+  - now rewrite Nat.eqb_refl.
+  - destruct (Nat.eqb_spec (fst a) (fst x)) as [E|NE]; [exfalso; auto|].
+    rewrite IH; auto.
+Qed.
+
+(* ------------------------------------------------------------------------------------------ *)
+(* loop invariant principle for the nested loops                                               *)
+(* ------------------------------------------------------------------------------------------ *)
+Definition step_ok (guard : bool) (cond : obj -> obj -> bool)
+           (P : list result -> list iobj -> list iobj -> Prop) (e g : iobj) : Prop :=
+  forall R E G E' G',
+    P R E G -> cond (snd e) (snd g) = true ->
+    (guard = true -> mem_id (fst e) E = true /\ mem_id (fst g) G = true) ->
+    remove_id (fst e) E = Some E' -> remove_id (fst g) G = Some G' ->
+    uuid_is_none e = false -> uuid_is_none g = false ->
+    P (R ++ [(e, Some g)]) E' G'.
+
+Lemma inner_inv guard cond P e : forall gs R E G R' E' G',
+  (forall g, In g gs -> step_ok guard cond P e g) ->
+  P R E G -> inner guard cond e gs R E G = Ok (R', E', G') -> P R' E' G'.
+Proof.
+  induction gs as [|g gs IH]; intros R E G R' E' G' Hs HP H; simpl in H.
+  - inversion H; subst; assumption.
+  - destruct (uuid_is_none e || uuid_is_none g) eqn:Hu; [discriminate|].
+    apply orb_false_iff in Hu. destruct Hu as [Hue Hug].
+    destruct (cond (snd e) (snd g) && (if guard then mem_id (fst e) E && mem_id (fst g) G else true)) eqn:Hc.
+    + apply andb_true_iff in Hc. destruct Hc as [Hc Hg].
+      destruct (remove_id (fst e) E) as [E1|] eqn:HE; [|discriminate].
+      destruct (remove_id (fst g) G) as [G1|] eqn:HG; [|discriminate].
+      eapply IH; [intros; apply Hs; now right| |exact H].
+      eapply (Hs g (or_introl eq_refl)); eauto.
+      intros ->. now apply andb_true_iff in Hg.
+    + eapply IH; [intros; apply Hs; now right|exact HP|exact H].
+Qed.
+
+Lemma outer_inv guard cond P gs : forall es R E G R' E' G',
+  (forall e g, In e es -> In g gs -> step_ok guard cond P e g) ->
+  P R E G -> outer guard cond es gs R E G = Ok (R', E', G') -> P R' E' G'.
+Proof.
+  induction es as [|e es IH]; intros R E G R' E' G' Hs HP H; simpl in H.
+  - inversion H; subst; assumption.
+  - destruct (inner guard cond e gs R E G) as [[[R1 E1] G1]|] eqn:Hi; [|discriminate].
+    eapply IH; [intros; apply Hs; auto; now right| |exact H].
+    eapply inner_inv; [|exact HP|exact Hi]. intros; apply Hs; auto. now left.
+Qed.
+
+(* ------------------------------------------------------------------------------------------ *)
+(* the bookkeeping invariant: results + working copies are a rearrangement of the inputs        *)
+(* ------------------------------------------------------------------------------------------ *)
+Lemma gts_of_app R1 R2 : gts_of (R1 ++ R2) = gts_of R1 ++ gts_of R2.
+Proof. apply flat_map_app. Qed.
+
+Definition Inv (E0 G0 : list iobj) (R : list result) (E G : list iobj) : Prop :=
+  Permutation E0 (map fst R ++ E) /\ Permutation G0 (gts_of R ++ G).
+
+Lemma Inv_init E0 G0 : Inv E0 G0 [] E0 G0.
+Proof. split; simpl; apply Permutation_refl. Qed.
+
+Lemma perm_remove (L0 A L L' : list iobj) (x : iobj) :
+  NoDup (map fst L0) -> In x L0 -> Permutation L0 (A ++ L) -> remove_id (fst x) L = Some L' ->
+  Permutation L0 ((A ++ [x]) ++ L').
+Proof.
+  intros ND Hx HP Hr.
+  destruct (remove_id_split _ _ _ Hr) as (l1 & y & l2 & -> & -> & Hy & _).
+  assert (y = x).
+  { apply (ids_inj L0); auto. eapply Permutation_in; [apply Permutation_sym; exact HP|].
+    apply in_or_app. right. apply in_elt. }
+  subst y. rewrite <- app_assoc. simpl.
+  eapply Permutation_trans; [exact HP|]. apply Permutation_app_head.
+  apply Permutation_sym, Permutation_middle.
+Qed.
+
+Lemma Inv_step E0 G0 e g R E G E' G' :
+  NoDup (map fst E0) -> NoDup (map fst G0) -> In e E0 -> In g G0 ->
+  Inv E0 G0 R E G -> remove_id (fst e) E = Some E' -> remove_id (fst g) G = Some G' ->
+  Inv E0 G0 (R ++ [(e, Some g)]) E' G'.
+Proof.
+  intros NE NG He Hg [PE PG] HE HG. split.
+  - rewrite map_app. simpl. eapply perm_remove; eauto.
+  - rewrite gts_of_app. simpl. eapply perm_remove; eauto.
+Qed.
+
+Lemma NoDup_app_disj {A} (l1 l2 : list A) x : NoDup (l1 ++ l2) -> In x l1 -> ~ In x l2.
+Proof.
+  induction l1 as [|a t IH]; simpl; intros ND H; [tauto|].
+  inversion ND as [|? ? Hn ND']; subst. destruct H as [->|H]; [|auto].
+  intros H2. apply Hn. apply in_or_app. now right.
+Qed.
+
+Lemma NoDup_app_l {A} (l1 l2 : list A) : NoDup (l1 ++ l2) -> NoDup l1.
+Proof.
+  induction l1 as [|a t IH]; simpl; intros ND; [constructor|].
+  inversion ND as [|? ? Hn ND']; subst. constructor; [|auto].
+  intros H. apply Hn. apply in_or_app. now left.
+Qed.
+Lemma NoDup_app_r {A} (l1 l2 : list A) : NoDup (l1 ++ l2) -> NoDup l2.
+Proof.
+  induction l1 as [|a t IH]; simpl; intros ND; [assumption|].
+  inversion ND; subst. auto.
+Qed.
+
+Lemma perm_facts (L0 A L : list iobj) :
+  NoDup (map fst L0) -> Permutation L0 (A ++ L) ->
+  NoDup (map fst A) /\ NoDup (map fst L) /\ incl A L0 /\ incl L L0 /\
+  (forall x, In x A -> ~ In (fst x) (map fst L)).
+Proof.
+  intros ND HP.
+  assert (ND' : NoDup (map fst A ++ map fst L)).
+  { rewrite <- map_app. eapply Permutation_NoDup; [apply Permutation_map; exact HP|exact ND]. }
+  repeat split.
+  - eapply NoDup_app_l; exact ND'.
+  - eapply NoDup_app_r; exact ND'.
+  - intros x Hx. eapply Permutation_in; [apply Permutation_sym; exact HP|]. apply in_or_app. now left.
+  - intros x Hx. eapply Permutation_in; [apply Permutation_sym; exact HP|]. apply in_or_app. now right.
+  - intros x Hx. eapply NoDup_app_disj; [exact ND'|]. now apply in_map.
+Qed.
+
+(* what every appended result looks like *)
+Definition pair_ok (es gs : list iobj) (cond : obj -> obj -> bool) (r : result) : Prop :=
+  exists e g, r = (e, Some g) /\ In e es /\ In g gs /\ cond (snd e) (snd g) = true.
+
+Lemma outer_Inv guard cond E0 G0 es gs R E G R' E' G' :
+  NoDup (map fst E0) -> NoDup (map fst G0) -> incl es E0 -> incl gs G0 ->
+  Inv E0 G0 R E G -> outer guard cond es gs R E G = Ok (R', E', G') ->
+  Inv E0 G0 R' E' G' /\ exists D, R' = R ++ D /\ Forall (pair_ok es gs cond) D.
+Proof.
+  intros NE NG Ies Igs HI H.
+  apply (outer_inv guard cond
+           (fun R1 E1 G1 => Inv E0 G0 R1 E1 G1 /\ exists D, R1 = R ++ D /\ Forall (pair_ok es gs cond) D)
+           gs es R E G R' E' G'); auto.
+  - intros e g He Hg R1 E1 G1 E2 G2 [HI1 (D & -> & HD)] Hc _ HE HG _ _. split.
+    + eapply Inv_step; eauto.
+    + exists (D ++ [(e, Some g)]). rewrite app_assoc. split; [reflexivity|].
+      apply Forall_app. split; [assumption|]. constructor; [|constructor].
+      exists e, g. auto.
+  - split; [assumption|]. exists []. rewrite app_nil_r. auto.
+Qed.
+
+(* the working copies only shrink *)
+Lemma remove_id_incl l i l' : remove_id i l = Some l' -> incl l' l.
+Proof.
+  intros H. destruct (remove_id_split _ _ _ H) as (l1 & x & l2 & -> & -> & _).
+  intros y Hy. apply in_app_or in Hy. apply in_or_app. destruct Hy; [now left|right; now right].
+Qed.
+
+Lemma inner_shrink guard cond e gs R E G R' E' G' :
+  inner guard cond e gs R E G = Ok (R', E', G') -> incl E' E /\ incl G' G.
+Proof.
+  intros H.
+  apply (inner_inv guard cond (fun _ E1 G1 => incl E1 E /\ incl G1 G) e gs R E G R' E' G'); auto.
+  - intros g _ R1 E1 G1 E2 G2 [H1 H2] _ _ HE HG _ _. split.
+    + eapply incl_tran; [eapply remove_id_incl; eauto|assumption].
+    + eapply incl_tran; [eapply remove_id_incl; eauto|assumption].
+  - split; apply incl_refl.
+Qed.
+
+Lemma outer_shrink guard cond es gs R E G R' E' G' :
+  outer guard cond es gs R E G = Ok (R', E', G') -> incl E' E /\ incl G' G.
+Proof.
+  intros H.
+  apply (outer_inv guard cond (fun _ E1 G1 => incl E1 E /\ incl G1 G) gs es R E G R' E' G'); auto.
+  - intros e g _ _ R1 E1 G1 E2 G2 [H1 H2] _ _ HE HG _ _. split.
+    + eapply incl_tran; [eapply remove_id_incl; eauto|assumption].
+    + eapply incl_tran; [eapply remove_id_incl; eauto|assumption].
+  - split; apply incl_refl.
+Qed.
+
+Lemma remove_id_NoDup l i l' :
+  NoDup (map fst l) -> remove_id i l = Some l' -> NoDup (map fst l') /\ ~ In i (map fst l').
+Proof.
+  intros ND H. destruct (remove_id_split _ _ _ H) as (l1 & x & l2 & -> & -> & Hx & _).
+  rewrite map_app in *. simpl in ND. rewrite Hx in ND. split.
+  - eapply NoDup_remove_1; exact ND.
+  - eapply NoDup_remove_2; exact ND.
+Qed.
+
+Lemma incl_ids (l l' : list iobj) i : incl l' l -> In i (map fst l') -> In i (map fst l).
+Proof. intros Hi H. apply in_map_iff in H. destruct H as (x & <- & Hx). apply in_map. auto. Qed.
+
+(* ------------------------------------------------------------------------------------------ *)
+(* guarded loops: nothing that satisfies the condition is left over                            *)
+(* ------------------------------------------------------------------------------------------ *)
+Lemma inner_max cond e : forall gs R E G R' E' G',
+  NoDup (map fst E) -> NoDup (map fst G) ->
+  inner true cond e gs R E G = Ok (R', E', G') ->
+  (NoDup (map fst E') /\ NoDup (map fst G')) /\
+  forall g, In g gs -> cond (snd e) (snd g) = true ->
+            ~ (In (fst e) (map fst E') /\ In (fst g) (map fst G')).
+Proof.
+  induction gs as [|g0 gs IH]; intros R E G R' E' G' NE NG H; simpl in H.
+  - inversion H; subst. split; [auto|]. intros g [].
+  - destruct (uuid_is_none e || uuid_is_none g0) eqn:Hu; [discriminate|].
+    destruct (cond (snd e) (snd g0) && (mem_id (fst e) E && mem_id (fst g0) G)) eqn:Hc.
+    + destruct (remove_id (fst e) E) as [E1|] eqn:HE; [|discriminate].
+      destruct (remove_id (fst g0) G) as [G1|] eqn:HG; [|discriminate].
+      destruct (remove_id_NoDup _ _ _ NE HE) as [NE1 Hn1].
+      destruct (remove_id_NoDup _ _ _ NG HG) as [NG1 _].
+      destruct (IH _ _ _ _ _ _ NE1 NG1 H) as [ND Hmax]. split; [exact ND|].
+      intros g [<-|Hg] Hcg; [|auto].
+      intros [He _]. apply Hn1. destruct (inner_shrink _ _ _ _ _ _ _ _ _ _ H) as [Hi _].
+      eapply incl_ids; eauto.
+    + destruct (IH _ _ _ _ _ _ NE NG H) as [ND Hmax]. split; [exact ND|].
+      intros g [<-|Hg] Hcg; [|auto].
+      intros [He Hg0]. destruct (inner_shrink _ _ _ _ _ _ _ _ _ _ H) as [Hi1 Hi2].
+      rewrite Hcg in Hc. simpl in Hc. apply andb_false_iff in Hc.
+      destruct Hc as [Hc|Hc]; apply mem_id_false in Hc; apply Hc; eapply incl_ids; eauto.
+Qed.
+
+Lemma outer_max cond gs : forall es R E G R' E' G',
+  NoDup (map fst E) -> NoDup (map fst G) ->
+  outer true cond es gs R E G = Ok (R', E', G') ->
+  (NoDup (map fst E') /\ NoDup (map fst G')) /\
+  forall e g, In e es -> In g gs -> cond (snd e) (snd g) = true ->
+              ~ (In (fst e) (map fst E') /\ In (fst g) (map fst G')).
+Proof.
+  induction es as [|e0 es IH]; intros R E G R' E' G' NE NG H; simpl in H.
+  - inversion H; subst. split; [auto|]. intros e g [].
+  - destruct (inner true cond e0 gs R E G) as [[[R1 E1] G1]|] eqn:Hi; [|discriminate].
+    destruct (inner_max _ _ _ _ _ _ _ _ _ NE NG Hi) as [[NE1 NG1] Hm1].
+    destruct (IH _ _ _ _ _ _ NE1 NG1 H) as [ND Hmax]. split; [exact ND|].
+    intros e g [<-|He] Hg Hc; [|auto].
+    intros [H1 H2]. destruct (outer_shrink _ _ _ _ _ _ _ _ _ _ H) as [Hi1 Hi2].
+    apply (Hm1 g Hg Hc). split; eapply incl_ids; eauto.
+Qed.
+
+(* guarded loops never fail on a remove; they fail exactly on a missing uuid *)
+Lemma inner_guard_no_remove_error cond e : forall gs R E G,
+  inner true cond e gs R E G <> Error ErrRemove.
+Proof.
+  induction gs as [|g0 gs IH]; intros R E G; simpl; [discriminate|].
+  destruct (uuid_is_none e || uuid_is_none g0); [discriminate|].
+  destruct (cond (snd e) (snd g0) && (mem_id (fst e) E && mem_id (fst g0) G)) eqn:Hc; [|apply IH].
+  apply andb_true_iff in Hc. destruct Hc as [_ Hc]. apply andb_true_iff in Hc. destruct Hc as [H1 H2].
+  destruct (mem_id_remove _ _ H1) as [E1 ->]. destruct (mem_id_remove _ _ H2) as [G1 ->]. apply IH.
+Qed.
+
+Lemma outer_guard_no_remove_error cond gs : forall es R E G,
+  outer true cond es gs R E G <> Error ErrRemove.
+Proof.
+  induction es as [|e es IH]; intros R E G; simpl; [discriminate|].
+  destruct (inner true cond e gs R E G) as [[[R1 E1] G1]|x] eqn:Hi; [apply IH|].
+  intros H. inversion H; subst. eapply inner_guard_no_remove_error; eauto.
+Qed.
+
+(* ------------------------------------------------------------------------------------------ *)
+(* counting                                                                                    *)
+(* ------------------------------------------------------------------------------------------ *)
+Definition cnt {A} (f : A -> bool) (l : list A) : nat := length (filter f l).
+
+Lemma cnt_app {A} (f : A -> bool) l1 l2 : cnt f (l1 ++ l2) = cnt f l1 + cnt f l2.
+Proof. unfold cnt. now rewrite filter_app, app_length. Qed.
+
+Lemma cnt_perm {A} (f : A -> bool) l l' : Permutation l l' -> cnt f l = cnt f l'.
+Proof.
+  unfold cnt. induction 1; simpl; auto.
+  - destruct (f x); simpl; auto.
+  - destruct (f x), (f y); simpl; auto.
+  - congruence.
+Qed.
+
+Lemma cnt_map {A B} (f : B -> bool) (g : A -> B) l : cnt f (map g l) = cnt (fun x => f (g x)) l.
+Proof. unfold cnt. induction l as [|a t IH]; simpl; auto. destruct (f (g a)); simpl; auto. Qed.
+
+Lemma cnt_pos_ex {A} (f : A -> bool) l : 0 < cnt f l -> exists x, In x l /\ f x = true.
+Proof.
+  unfold cnt. induction l as [|a t IH]; simpl; [lia|].
+  destruct (f a) eqn:Fa; [exists a; auto|]. intros H. destruct (IH H) as (x & ? & ?). exists x. auto.
+Qed.
+
+Lemma cnt_le_length {A} (f : A -> bool) l : cnt f l <= length l.
+Proof. unfold cnt. induction l as [|a t IH]; simpl; auto. destruct (f a); simpl; lia. Qed.
+
+Lemma cnt_all {A} (f : A -> bool) l : (forall x, In x l -> f x = true) -> cnt f l = length l.
+Proof.
+  unfold cnt. induction l as [|a t IH]; simpl; intros H; auto.
+  rewrite (H a (or_introl eq_refl)). simpl. f_equal. apply IH. auto.
+Qed.
+
+Lemma cnt_none {A} (f : A -> bool) l : (forall x, In x l -> f x = false) -> cnt f l = 0.
+Proof.
+  unfold cnt. induction l as [|a t IH]; simpl; intros H; auto.
+  rewrite (H a (or_introl eq_refl)). apply IH. auto.
+Qed.
+
+Lemma cnt_ext {A} (f g : A -> bool) l : (forall x, In x l -> f x = g x) -> cnt f l = cnt g l.
+Proof.
+  unfold cnt. induction l as [|a t IH]; simpl; intros H; auto.
+  rewrite (H a (or_introl eq_refl)). destruct (g a); simpl; rewrite IH; auto.
+Qed.
+
+Lemma NoDup_map_filter {A B} (f : A -> B) (q : A -> bool) l : NoDup (map f l) -> NoDup (map f (filter q l)).
+Proof.
+  induction l as [|a t IH]; simpl; intros ND; [constructor|].
+  inversion ND as [|? ? Hn ND']; subst. destruct (q a); simpl; [|auto].
+  constructor; [|auto]. intros H. apply Hn. apply in_map_iff in H. destruct H as (x & Hx & Hin).
+  apply filter_In in Hin. rewrite <- Hx. apply in_map. tauto.
+Qed.
+
+(* keys: two lists whose per-key counts are dominated have dominated lengths *)
+Definition key := (nat * nat * option nat)%type.
+Definition key_eqb (a b : key) : bool :=
+  let '(a1, a2, a3) := a in let '(b1, b2, b3) := b in
+  Nat.eqb a1 b1 && Nat.eqb a2 b2 &&
+  match a3, b3 with Some x, Some y => Nat.eqb x y | None, None => true | _, _ => false end.
+
+Lemma key_eqb_eq a b : key_eqb a b = true <-> a = b.
+Proof.
+  destruct a as [[a1 a2] a3], b as [[b1 b2] b3]. unfold key_eqb. split.
+  - intros H. apply andb_true_iff in H. destruct H as [H H3]. apply andb_true_iff in H. destruct H as [H1 H2].
+    apply Nat.eqb_eq in H1, H2. subst.
+    destruct a3, b3; try discriminate; [apply Nat.eqb_eq in H3; subst|]; reflexivity.
+  - intros H. inversion H; subst. rewrite !Nat.eqb_refl. destruct b3; [apply Nat.eqb_refl|reflexivity].
+Qed.
+
+Lemma key_eqb_refl a : key_eqb a a = true.
+Proof. now apply key_eqb_eq. Qed.
+
+Lemma key_count_le {A B} (ka : A -> key) (kb : B -> key) : forall (la : list A) (lb : list B),
+  (forall k, cnt (fun a => key_eqb (ka a) k) la <= cnt (fun b => key_eqb (kb b) k) lb) ->
+  length la <= length lb.
+Proof.
+  induction la as [|a la IH]; intros lb H; simpl; [lia|].
+  assert (H0 := H (ka a)). unfold cnt at 1 in H0. simpl in H0. rewrite key_eqb_refl in H0. simpl in H0.
+  destruct (cnt_pos_ex (fun b => key_eqb (kb b) (ka a)) lb) as (b & Hb & Kb); [lia|].
+  apply in_split in Hb. destruct Hb as (l1 & l2 & ->).
+  assert (length la <= length (l1 ++ l2)).
+  { apply IH. intros k. specialize (H k). rewrite cnt_app in *. unfold cnt in *. simpl in H.
+    apply key_eqb_eq in Kb.
+    destruct (key_eqb (ka a) k) eqn:K1; destruct (key_eqb (kb b) k) eqn:K2; simpl in H; try lia.
+    apply key_eqb_eq in K2. rewrite <- Kb, K2, key_eqb_refl in K1. discriminate. }
+  rewrite app_length in *. simpl. lia.
+Qed.
+
+(* ------------------------------------------------------------------------------------------ *)
+(* first-fit over a key-equality condition is maximum                                          *)
+(* ------------------------------------------------------------------------------------------ *)
+Section Greedy.
+  Variable kappa : obj -> key.
+  Variable cond : obj -> obj -> bool.
+  Hypothesis cond_key : forall a b, cond a b = true <-> kappa a = kappa b.
+  Variables E0 G0 : list iobj.
+  Hypothesis NE : NoDup (map fst E0).
+  Hypothesis NG : NoDup (map fst G0).
+
+  Definition kf (k : key) (x : iobj) : bool := key_eqb (kappa (snd x)) k.
+  Definition cR (k : key) (R : list result) : nat := cnt (fun r : result => kf k (fst r)) R.
+  Definition cP (k : key) (P : list (iobj * iobj)) : nat := cnt (fun p : iobj * iobj => kf k (fst p)) P.
+
+  Lemma cnt_ests_of R k : cnt (kf k) (map fst R) = cR k R.
+  Proof. apply cnt_map. Qed.
+
+  Lemma cnt_gts_of R k :
+    Forall (pair_ok E0 G0 cond) R -> cnt (kf k) (gts_of R) = cR k R.
+  Proof.
+    unfold cR. induction 1 as [|r R Hr _ IH]; [reflexivity|].
+    destruct Hr as (e & g & -> & _ & _ & Hc). apply cond_key in Hc.
+    change (gts_of ((e, Some g) :: R)) with ([g] ++ gts_of R).
+    change ((e, Some g) :: R) with ([(e, Some g)] ++ R).
+    rewrite !cnt_app, IH. f_equal. unfold cnt, kf. simpl. rewrite Hc.
+    destruct (key_eqb (kappa (snd g)) k); reflexivity.
+  Qed.
+
+  Lemma pairing_count_le (P : list (iobj * iobj)) k :
+    NoDup (map fst P) -> NoDup (map snd P) ->
+    (forall p, In p P -> In (fst p) E0 /\ In (snd p) G0 /\ kappa (snd (fst p)) = kappa (snd (snd p))) ->
+    cP k P <= cnt (kf k) E0 /\ cP k P <= cnt (kf k) G0.
+  Proof.
+    intros N1 N2 HP. unfold cP, cnt. split.
+    - rewrite <- (map_length fst (filter _ P)). apply NoDup_incl_length.
+      + now apply NoDup_map_filter.
+      + intros x Hx. apply in_map_iff in Hx. destruct Hx as (p & <- & Hp). apply filter_In in Hp.
+        destruct Hp as [Hp Hk]. apply filter_In. split; [apply HP; assumption|assumption].
+    - rewrite <- (map_length snd (filter _ P)). apply NoDup_incl_length.
+      + now apply NoDup_map_filter.
+      + intros x Hx. apply in_map_iff in Hx. destruct Hx as (p & <- & Hp). apply filter_In in Hp.
+        destruct Hp as [Hp Hk]. apply filter_In. destruct (HP p Hp) as (_ & H2 & H3).
+        split; [assumption|]. unfold kf in *. now rewrite <- H3.
+  Qed.
+
+  Lemma greedy_max R1 E1 G1 :
+    outer true cond E0 G0 [] E0 G0 = Ok (R1, E1, G1) ->
+    forall P : list (iobj * iobj),
+      NoDup (map fst P) -> NoDup (map snd P) ->
+      (forall p, In p P -> In (fst p) E0 /\ In (snd p) G0 /\ kappa (snd (fst p)) = kappa (snd (snd p))) ->
+      length P <= length R1.
+  Proof.
+    intros H P N1 N2 HP.
+    destruct (outer_Inv true cond E0 G0 E0 G0 [] E0 G0 R1 E1 G1 NE NG (incl_refl _) (incl_refl _)
+                        (Inv_init E0 G0) H) as [[PE PG] (D & HD & HF)].
+    simpl in HD. subst D.
+    destruct (outer_max cond G0 E0 [] E0 G0 R1 E1 G1 NE NG H) as [_ Hmax].
+    apply (key_count_le (fun p : iobj * iobj => kappa (snd (fst p))) (fun r : result => kappa (snd (fst r)))).
+    intros k. change (cP k P <= cR k R1).
+    destruct (pairing_count_le P k N1 N2 HP) as [LE LG].
+    rewrite (cnt_perm (kf k) _ _ PE), cnt_app, cnt_ests_of in LE.
+    rewrite (cnt_perm (kf k) _ _ PG), cnt_app, (cnt_gts_of R1 k HF) in LG.
+    destruct (cnt (kf k) E1) as [|n1] eqn:C1; [lia|].
+    destruct (cnt (kf k) G1) as [|n2] eqn:C2; [lia|].
+    exfalso.
+    destruct (cnt_pos_ex (kf k) E1) as (e & He & Ke); [lia|].
+    destruct (cnt_pos_ex (kf k) G1) as (g & Hg & Kg); [lia|].
+    destruct (perm_facts E0 (map fst R1) E1 NE PE) as (_ & _ & _ & IE & _).
+    destruct (perm_facts G0 (gts_of R1) G1 NG PG) as (_ & _ & _ & IG & _).
+    apply (Hmax e g (IE _ He) (IG _ Hg)).
+    - apply cond_key. unfold kf in *. apply key_eqb_eq in Ke, Kg. congruence.
+    - split; now apply in_map.
+  Qed.
+End Greedy.
+
+(* ------------------------------------------------------------------------------------------ *)
+(* the conditions, declaratively                                                               *)
+(* ------------------------------------------------------------------------------------------ *)
+Lemma uuid_eqb_eq a b : uuid_eqb a b = true <-> o_uuid a = o_uuid b.
+Proof.
+  unfold uuid_eqb. destruct (o_uuid a), (o_uuid b); split; intros H; try discriminate; try reflexivity.
+  - apply Nat.eqb_eq in H. congruence.
+  - inversion H. apply Nat.eqb_refl.
+Qed.
+
+Lemma cond_id_iff a b : cond_id a b = true <-> o_uuid a = o_uuid b /\ o_cam a = o_cam b.
+Proof. unfold cond_id, cam_eqb. rewrite andb_true_iff, uuid_eqb_eq, Nat.eqb_eq. tauto. Qed.
+
+Lemma cond_label_iff uf a b :
+  cond_label uf a b = true <->
+  o_label a = o_label b /\ o_cam a = o_cam b /\ (uf = true -> o_uuid a = o_uuid b).
+Proof.
+  unfold cond_label, cam_eqb, label_eqb. destruct uf.
+  - rewrite !andb_true_iff, uuid_eqb_eq, !Nat.eqb_eq. tauto.
+  - rewrite !andb_true_iff, !Nat.eqb_eq. split; [intros [? ?]; repeat split; auto; discriminate|tauto].
+Qed.
+
+Definition key1 (uf : bool) (o : obj) : key := (o_cam o, o_label o, if uf then o_uuid o else None).
+
+Lemma cond_label_key uf a b : cond_label uf a b = true <-> key1 uf a = key1 uf b.
+Proof.
+  rewrite cond_label_iff. unfold key1. destruct uf; split.
+  - intros (H1 & H2 & H3). rewrite H1, H2, H3; auto.
+  - intros H. inversion H. auto.
+  - intros (H1 & H2 & _). rewrite H1, H2; auto.
+  - intros H. inversion H. repeat split; auto. discriminate.
+Qed.
+
+Lemma est_ids_map R : est_ids R = map fst (map fst R).
+Proof. unfold est_ids. now rewrite map_map. Qed.
+Lemma est_ids_app R1 R2 : est_ids (R1 ++ R2) = est_ids R1 ++ est_ids R2.
+Proof. apply map_app. Qed.
+Lemma gt_ids_app R1 R2 : gt_ids (R1 ++ R2) = gt_ids R1 ++ gt_ids R2.
+Proof. unfold gt_ids. now rewrite gts_of_app, map_app. Qed.
+
+Lemma used_or_left (L0 A L : list iobj) x :
+  Permutation L0 (A ++ L) -> In x L0 -> In (fst x) (map fst A) \/ In x L.
+Proof.
+  intros HP Hx. apply (Permutation_in _ HP) in Hx. apply in_app_or in Hx.
+  destruct Hx; [left; now apply in_map|now right].
+Qed.
+
+(* ------------------------------------------------------------------------------------------ *)
+(* the traffic-light matcher                                                                   *)
+(* ------------------------------------------------------------------------------------------ *)
+Inductive tlr_run (uf : bool) (ests gts : list obj) (R : list result) : Prop :=
+| TlrRun (R1 : list result) (E1 G1 : list iobj) (D2 : list result) (E2 G2 : list iobj)
+    (tr_stage1 : outer true (cond_label uf) (indexed ests) (indexed gts) [] (indexed ests) (indexed gts)
+                 = Ok (R1, E1, G1))
+    (tr_stage2 : outer true cond_id E1 G1 R1 E1 G1 = Ok (R, E2, G2))
+    (tr_split : R = R1 ++ D2)
+    (tr_inv1 : Inv (indexed ests) (indexed gts) R1 E1 G1)
+    (tr_pairs1 : Forall (pair_ok (indexed ests) (indexed gts) (cond_label uf)) R1)
+    (tr_inv2 : Inv (indexed ests) (indexed gts) R E2 G2)
+    (tr_pairs2 : Forall (pair_ok E1 G1 cond_id) D2)
+    (tr_max1 : forall e g, In e (indexed ests) -> In g (indexed gts) -> cond_label uf (snd e) (snd g) = true ->
+                           ~ (In (fst e) (map fst E1) /\ In (fst g) (map fst G1)))
+    (tr_max2 : forall e g, In e E1 -> In g G1 -> cond_id (snd e) (snd g) = true ->
+                           ~ (In (fst e) (map fst E2) /\ In (fst g) (map fst G2))).
+
+Lemma tlr_decompose uf ests gts R : tlr_match uf ests gts = Ok R -> tlr_run uf ests gts R.
+Proof.
+  unfold tlr_match, tlr_stage1. intros H.
+  set (E0 := indexed ests) in *. set (G0 := indexed gts) in *.
+  assert (NE : NoDup (map fst E0)) by apply indexed_NoDup.
+  assert (NG : NoDup (map fst G0)) by apply indexed_NoDup.
+  destruct (outer true (cond_label uf) E0 G0 [] E0 G0) as [[[R1 E1] G1]|] eqn:H1; [|discriminate].
+  destruct (outer true cond_id E1 G1 R1 E1 G1) as [[[R2 E2] G2]|] eqn:H2; [|discriminate].
+  inversion H; subst R2; clear H.
+  destruct (outer_Inv _ _ E0 G0 _ _ _ _ _ _ _ _ NE NG (incl_refl _) (incl_refl _) (Inv_init E0 G0) H1)
+    as [I1 (D1 & HD1 & F1)]. simpl in HD1. subst D1.
+  destruct (outer_max _ _ _ _ _ _ _ _ _ NE NG H1) as [[NE1 NG1] M1].
+  destruct I1 as [PE1 PG1].
+  destruct (perm_facts _ _ _ NE PE1) as (_ & _ & _ & IE1 & _).
+  destruct (perm_facts _ _ _ NG PG1) as (_ & _ & _ & IG1 & _).
+  destruct (outer_Inv _ _ E0 G0 _ _ _ _ _ _ _ _ NE NG IE1 IG1 (conj PE1 PG1) H2) as [I2 (D2 & HD2 & F2)].
+  destruct (outer_max _ _ _ _ _ _ _ _ _ NE1 NG1 H2) as [_ M2].
+  econstructor; eauto. split; assumption.
+Qed.
+
+Theorem tlr_one_to_one uf ests gts R :
+  tlr_match uf ests gts = Ok R ->
+  NoDup (est_ids R) /\ NoDup (gt_ids R) /\
+  forall r, In r R -> exists e g, r = (e, Some g) /\ In e (indexed ests) /\ In g (indexed gts).
+Proof.
+  intros H. destruct (tlr_decompose _ _ _ _ H) as [R1 E1 G1 D2 E2 G2 _ _ Hs [PE1 PG1] F1 [PE2 PG2] F2 _ _].
+  destruct (perm_facts _ _ _ (indexed_NoDup ests) PE2) as (N1 & _).
+  destruct (perm_facts _ _ _ (indexed_NoDup gts) PG2) as (N2 & _).
+  destruct (perm_facts _ _ _ (indexed_NoDup ests) PE1) as (_ & _ & _ & IE1 & _).
+  destruct (perm_facts _ _ _ (indexed_NoDup gts) PG1) as (_ & _ & _ & IG1 & _).
+  rewrite est_ids_map. repeat split; auto.
+  intros r Hr. subst R. apply in_app_or in Hr. destruct Hr as [Hr|Hr].
+  - rewrite Forall_forall in F1. destruct (F1 r Hr) as (e & g & -> & He & Hg & _). eauto.
+  - rewrite Forall_forall in F2. destruct (F2 r Hr) as (e & g & -> & He & Hg & _). eauto 8.
+Qed.
+
+Theorem tlr_same_camera uf ests gts R :
+  tlr_match uf ests gts = Ok R ->
+  forall e g, In (e, Some g) R -> o_cam (snd e) = o_cam (snd g).
+Proof.
+  intros H e g Hr. destruct (tlr_decompose _ _ _ _ H) as [R1 E1 G1 D2 E2 G2 _ _ Hs _ F1 _ F2 _ _].
+  subst R. apply in_app_or in Hr. destruct Hr as [Hr|Hr].
+  - rewrite Forall_forall in F1. destruct (F1 _ Hr) as (e' & g' & Heq & _ & _ & Hc). inversion Heq; subst.
+    apply cond_label_iff in Hc. tauto.
+  - rewrite Forall_forall in F2. destruct (F2 _ Hr) as (e' & g' & Heq & _ & _ & Hc). inversion Heq; subst.
+    apply cond_id_iff in Hc. tauto.
+Qed.
+
+Theorem tlr_stage_order uf ests gts R :
+  tlr_match uf ests gts = Ok R ->
+  exists R1 R2, R = R1 ++ R2 /\
+    (forall e g, In (e, Some g) R1 ->
+       o_label (snd e) = o_label (snd g) /\ o_cam (snd e) = o_cam (snd g) /\
+       (uf = true -> o_uuid (snd e) = o_uuid (snd g))) /\
+    (forall e g, In (e, Some g) R2 ->
+       o_uuid (snd e) = o_uuid (snd g) /\ o_cam (snd e) = o_cam (snd g) /\
+       o_label (snd e) <> o_label (snd g)) /\
+    (forall e g, In e (indexed ests) -> In g (indexed gts) -> cond_label uf (snd e) (snd g) = true ->
+       In (fst e) (est_ids R1) \/ In (fst g) (gt_ids R1)) /\
+    (forall e g, In e (indexed ests) -> In g (indexed gts) -> cond_id (snd e) (snd g) = true ->
+       In (fst e) (est_ids R) \/ In (fst g) (gt_ids R)).
+Proof.
+  intros H. destruct (tlr_decompose _ _ _ _ H) as [R1 E1 G1 D2 E2 G2 _ _ Hs [PE1 PG1] F1 [PE2 PG2] F2 M1 M2].
+  destruct (perm_facts _ _ _ (indexed_NoDup ests) PE1) as (_ & _ & _ & IE1 & _).
+  destruct (perm_facts _ _ _ (indexed_NoDup gts) PG1) as (_ & _ & _ & IG1 & _).
+  exists R1, D2. split; [exact Hs|]. rewrite Forall_forall in F1, F2. repeat split.
+  - destruct (F1 _ H0) as (e' & g' & Heq & _ & _ & Hc). inversion Heq; subst. apply cond_label_iff in Hc. tauto.
+  - destruct (F1 _ H0) as (e' & g' & Heq & _ & _ & Hc). inversion Heq; subst. apply cond_label_iff in Hc. tauto.
+  - destruct (F1 _ H0) as (e' & g' & Heq & _ & _ & Hc). inversion Heq; subst. apply cond_label_iff in Hc. tauto.
+  - destruct (F2 _ H0) as (e' & g' & Heq & _ & _ & Hc). inversion Heq; subst. apply cond_id_iff in Hc. tauto.
+  - destruct (F2 _ H0) as (e' & g' & Heq & _ & _ & Hc). inversion Heq; subst. apply cond_id_iff in Hc. tauto.
+  - destruct (F2 _ H0) as (e' & g' & Heq & He & Hg & Hc). inversion Heq; subst e' g'.
+    apply cond_id_iff in Hc. intros HL.
+    apply (M1 e g (IE1 _ He) (IG1 _ Hg)).
+    + apply cond_label_iff. repeat split; tauto.
+    + split; now apply in_map.
+  - intros e g He Hg Hc.
+    destruct (used_or_left _ _ _ e PE1 He) as [U|Le]; [left; now rewrite est_ids_map|].
+    destruct (used_or_left _ _ _ g PG1 Hg) as [U|Lg]; [right; exact U|].
+    exfalso. apply (M1 e g He Hg Hc). split; now apply in_map.
+  - intros e g He Hg Hc.
+    destruct (used_or_left _ _ _ e PE2 He) as [U|Le2]; [left; now rewrite est_ids_map|].
+    destruct (used_or_left _ _ _ g PG2 Hg) as [U|Lg2]; [right; exact U|].
+    destruct (used_or_left _ _ _ e PE1 He) as [U|Le1].
+    { left. rewrite Hs, est_ids_app. apply in_or_app. left. now rewrite est_ids_map. }
+    destruct (used_or_left _ _ _ g PG1 Hg) as [U|Lg1].
+    { right. rewrite Hs, gt_ids_app. apply in_or_app. now left. }
+    exfalso. apply (M2 e g Le1 Lg1 Hc). split; now apply in_map.
+Qed.
+
+(* a competing pairing: one-to-one, between objects of the two lists *)
+Definition pairing (ests gts : list obj) (P : list (iobj * iobj)) : Prop :=
+  (forall p, In p P -> In (fst p) (indexed ests) /\ In (snd p) (indexed gts)) /\
+  NoDup (map (fun p : iobj * iobj => fst (fst p)) P) /\
+  NoDup (map (fun p : iobj * iobj => fst (snd p)) P).
+
+Definition same_label_pair (p : iobj * iobj) : bool := label_eqb (snd (fst p)) (snd (snd p)).
+
+Theorem tlr_label_pairs_maximal uf ests gts R :
+  tlr_match uf ests gts = Ok R ->
+  forall P, pairing ests gts P ->
+    (forall p, In p P -> o_cam (snd (fst p)) = o_cam (snd (snd p)) /\
+                         (uf = true -> o_uuid (snd (fst p)) = o_uuid (snd (snd p)))) ->
+    cnt same_label_pair P <= cnt same_label_result R.
+Proof.
+  intros H P (Hin & N1 & N2) Hadm.
+  destruct (tlr_decompose _ _ _ _ H) as [R1 E1 G1 D2 E2 G2 H1 _ Hs _ F1 _ _ _ _].
+  assert (L1 : length (filter same_label_pair P) <= length R1).
+  { apply (greedy_max (key1 uf) (cond_label uf) (cond_label_key uf) (indexed ests) (indexed gts)
+                      (indexed_NoDup ests) (indexed_NoDup gts) R1 E1 G1 H1).
+    - apply NoDup_map_filter. eapply NoDup_map_inv. rewrite map_map. exact N1.
+    - apply NoDup_map_filter. eapply NoDup_map_inv. rewrite map_map. exact N2.
+    - intros p Hp. apply filter_In in Hp. destruct Hp as [Hp HL].
+      destruct (Hin p Hp) as [He Hg]. destruct (Hadm p Hp) as [Hc Hu]. repeat split; auto.
+      apply cond_label_key. apply cond_label_iff. unfold same_label_pair, label_eqb in HL.
+      apply Nat.eqb_eq in HL. auto. }
+  subst R. rewrite cnt_app. rewrite (cnt_all same_label_result R1).
+  - unfold cnt at 1. lia.
+  - intros r Hr. rewrite Forall_forall in F1. destruct (F1 r Hr) as (e & g & -> & _ & _ & Hc).
+    apply cond_label_iff in Hc. unfold same_label_result, label_eqb. simpl. apply Nat.eqb_eq. tauto.
+Qed.
+
+(* never a remove failure, never a ground-truth-less result; the only error is a missing uuid *)
+Theorem tlr_error_only_uuid uf ests gts : tlr_match uf ests gts <> Error ErrRemove.
+Proof.
+  unfold tlr_match, tlr_stage1. intros H.
+  destruct (outer true (cond_label uf) (indexed ests) (indexed gts) [] (indexed ests) (indexed gts))
+    as [[[R1 E1] G1]|x] eqn:H1.
+  - destruct (outer true cond_id E1 G1 R1 E1 G1) as [[[R2 E2] G2]|y] eqn:H2; [discriminate|].
+    inversion H; subst. eapply outer_guard_no_remove_error; eauto.
+  - inversion H; subst. eapply outer_guard_no_remove_error; eauto.
+Qed.
+
+(* ------------------------------------------------------------------------------------------ *)
+(* the generic matcher equals its declarative description                                      *)
+(* ------------------------------------------------------------------------------------------ *)
+Definition okey (x : iobj) : option nat * nat := uuid_cam (snd x).
+Definition uuid_set (x : iobj) : Prop := o_uuid (snd x) <> None.
+
+Lemma uuid_set_false x : uuid_set x -> uuid_is_none x = false.
+Proof. unfold uuid_set, uuid_is_none. destruct (o_uuid (snd x)); [reflexivity|congruence]. Qed.
+
+Lemma cond_id_okey e g : cond_id (snd e) (snd g) = true <-> okey e = okey g.
+Proof.
+  rewrite cond_id_iff. unfold okey, uuid_cam. split; [intros [-> ->]; reflexivity|intros H; inversion H; auto].
+Qed.
+
+Lemma inner_id_nomatch e : forall gs R E G,
+  uuid_set e -> (forall g, In g gs -> uuid_set g) ->
+  (forall g, In g gs -> cond_id (snd e) (snd g) = false) ->
+  inner false cond_id e gs R E G = Ok (R, E, G).
+Proof.
+  induction gs as [|g gs IH]; intros R E G Ue Ug Hn; simpl; [reflexivity|].
+  rewrite (uuid_set_false e Ue), (uuid_set_false g (Ug g (or_introl eq_refl))). simpl.
+  rewrite (Hn g (or_introl eq_refl)). simpl. apply IH; auto.
+  - intros; apply Ug; now right.
+  - intros; apply Hn; now right.
+Qed.
+
+Lemma id_partners_nil e gs :
+  id_partners e gs = [] <-> forall g, In g gs -> cond_id (snd e) (snd g) = false.
+Proof.
+  unfold id_partners. induction gs as [|g gs IH]; simpl.
+  - split; [intros _ g []|reflexivity].
+  - destruct (cond_id (snd e) (snd g)) eqn:C.
+    + split; [discriminate|]. intros H. specialize (H g (or_introl eq_refl)). congruence.
+    + rewrite IH. split; [intros H g' [<-|Hg]; auto|intros H g' Hg; apply H; now right].
+Qed.
+
+Lemma inner_id_step e : forall gs R E G,
+  uuid_set e -> (forall g, In g gs -> uuid_set g) -> NoDup (map okey gs) ->
+  mem_id (fst e) E = true ->
+  (forall g, In g gs -> cond_id (snd e) (snd g) = true -> mem_id (fst g) G = true) ->
+  (id_partners e gs = [] /\ inner false cond_id e gs R E G = Ok (R, E, G)) \/
+  (exists g0 E' G', id_partners e gs = [g0] /\ In g0 gs /\ cond_id (snd e) (snd g0) = true /\
+                    remove_id (fst e) E = Some E' /\ remove_id (fst g0) G = Some G' /\
+                    inner false cond_id e gs R E G = Ok (R ++ [(e, Some g0)], E', G')).
+Proof.
+  induction gs as [|g gs IH]; intros R E G Ue Ug ND ME MG.
+  - left. split; reflexivity.
+  - inversion ND as [|? ? Hnk ND']; subst.
+    assert (Ug' : forall g', In g' gs -> uuid_set g') by (intros; apply Ug; now right).
+    simpl inner. rewrite (uuid_set_false e Ue), (uuid_set_false g (Ug g (or_introl eq_refl))). simpl.
+    unfold id_partners. simpl filter. fold (id_partners e gs).
+    destruct (cond_id (snd e) (snd g)) eqn:C; simpl.
+    + right.
+      assert (Hno : forall g', In g' gs -> cond_id (snd e) (snd g') = false).
+      { intros g' Hg'. destruct (cond_id (snd e) (snd g')) eqn:C'; [|reflexivity].
+        exfalso. apply Hnk. apply cond_id_okey in C, C'. rewrite <- C, C'. now apply in_map. }
+      destruct (mem_id_remove _ _ ME) as [E' HE].
+      destruct (mem_id_remove _ _ (MG g (or_introl eq_refl) C)) as [G' HG].
+      exists g, E', G'. rewrite HE, HG.
+      rewrite (proj2 (id_partners_nil e gs) Hno).
+      repeat split; auto. apply inner_id_nomatch; auto.
+    + destruct (IH R E G Ue Ug' ND' ME) as [[Hp Hi]|(g0 & E' & G' & Hp & Hg0 & Hc & HE & HG & Hi)].
+      * intros; apply MG; auto; now right.
+      * left. auto.
+      * right. exists g0, E', G'. repeat split; auto; now right.
+Qed.
+
+Lemma remove_id_mem_other l i j l' : remove_id i l = Some l' -> j <> i -> mem_id j l = true -> mem_id j l' = true.
+Proof.
+  intros H Hne Hm. destruct (remove_id_split _ _ _ H) as (l1 & x & l2 & -> & -> & Hx & _).
+  apply mem_id_In in Hm. apply mem_id_In. rewrite map_app in *. apply in_app_or in Hm. apply in_or_app.
+  destruct Hm as [Hm|Hm]; [now left|]. simpl in Hm. destruct Hm as [Hm|Hm]; [congruence|now right].
+Qed.
+
+Lemma existsb_partners e gs :
+  existsb (fun g => cond_id (snd e) (snd g)) gs = negb (match id_partners e gs with [] => true | _ => false end).
+Proof.
+  unfold id_partners. induction gs as [|g gs IH]; simpl; [reflexivity|].
+  destruct (cond_id (snd e) (snd g)); simpl; auto.
+Qed.
+
+Lemma outer_id_spec gs : forall es A R G,
+  (forall e, In e es -> uuid_set e) -> (forall g, In g gs -> uuid_set g) ->
+  NoDup (map okey es) -> NoDup (map okey gs) -> NoDup (map fst es) -> NoDup (map fst gs) ->
+  (forall e, In e es -> ~ In (fst e) (map fst A)) ->
+  (forall e g, In e es -> In g gs -> cond_id (snd e) (snd g) = true -> mem_id (fst g) G = true) ->
+  exists G', outer false cond_id es gs R (A ++ es) G = Ok (R ++ id_pairs es gs, A ++ id_unpaired es gs, G').
+Proof.
+  induction es as [|e es IH]; intros A R G Ue Ug NKe NKg NIe NIg HA HG.
+  - exists G. simpl. now rewrite !app_nil_r.
+  - inversion NKe as [|? ? Hnk NKe']; subst. inversion NIe as [|? ? Hni NIe']; subst.
+    assert (ME : mem_id (fst e) (A ++ e :: es) = true).
+    { apply mem_id_In. rewrite map_app. apply in_or_app. right. now left. }
+    change (outer false cond_id (e :: es) gs R (A ++ e :: es) G)
+      with (match inner false cond_id e gs R (A ++ e :: es) G with
+            | Error x => Error x
+            | Ok (R', E', G') => outer false cond_id es gs R' E' G'
+            end).
+    destruct (inner_id_step e gs R (A ++ e :: es) G (Ue e (or_introl eq_refl)) Ug NKg ME)
+      as [[Hp Hi]|(g0 & E' & G' & Hp & Hg0 & Hc & HE & HGr & Hi)].
+    { intros g Hg Hcg. apply (HG e g); auto. now left. }
+    + (* no partner: e stays in the working copy *)
+      rewrite Hi. cbv beta iota.
+      destruct (IH (A ++ [e]) R G) as [G' HO]; auto.
+      * intros; apply Ue; now right.
+      * intros e' He'. rewrite map_app. intros Hin. apply in_app_or in Hin. destruct Hin as [Hin|Hin].
+        -- apply (HA e'); auto. now right.
+        -- simpl in Hin. destruct Hin as [Hin|[]]. apply Hni. rewrite Hin. now apply in_map.
+      * intros e' g He' Hg. apply HG; auto. now right.
+      * exists G'. rewrite <- app_assoc in HO. change ([e] ++ es) with (e :: es) in HO. rewrite HO.
+        unfold id_pairs, id_unpaired. simpl. fold (id_pairs es gs). fold (id_unpaired es gs).
+        rewrite Hp. simpl. rewrite existsb_partners, Hp. simpl. now rewrite <- app_assoc.
+    + (* one partner g0: both are removed *)
+      rewrite Hi. cbv beta iota.
+      assert (HE' : E' = A ++ es).
+      { rewrite remove_id_app_notin in HE; [congruence|]. apply HA. now left. }
+      subst E'.
+      destruct (IH A (R ++ [(e, Some g0)]) G') as [G'' HO]; auto.
+      * intros; apply Ue; now right.
+      * intros; apply HA; now right.
+      * intros e' g He' Hg Hcg. eapply remove_id_mem_other; [exact HGr| |apply (HG e' g); auto; now right].
+        intros Heq. assert (g = g0) by (apply (ids_inj gs); auto). subst g.
+        apply Hnk. apply cond_id_okey in Hc, Hcg. rewrite Hc, <- Hcg. now apply in_map.
+      * exists G''. rewrite HO.
+        unfold id_pairs, id_unpaired. simpl. fold (id_pairs es gs). fold (id_unpaired es gs).
+        rewrite Hp. simpl. rewrite existsb_partners, Hp. simpl. now rewrite <- app_assoc.
+Qed.
+
+Lemma okey_indexed l : map okey (indexed l) = map uuid_cam l.
+Proof. rewrite <- (indexed_objs l) at 2. rewrite map_map. reflexivity. Qed.
+
+Lemma uuid_set_indexed l : all_uuid_set l -> forall x, In x (indexed l) -> uuid_set x.
+Proof.
+  intros H x Hx. apply H. rewrite <- (indexed_objs l). now apply in_map.
+Qed.
+
+Theorem id_match_eq_spec ests gts :
+  all_uuid_set ests -> all_uuid_set gts -> NoDup (map uuid_cam ests) -> NoDup (map uuid_cam gts) ->
+  id_match ests gts = Ok (id_spec ests gts).
+Proof.
+  intros Ue Ug Ke Kg. unfold id_match, id_spec.
+  destruct (outer_id_spec (indexed gts) (indexed ests) [] [] (indexed gts)) as [G' H].
+  - now apply uuid_set_indexed.
+  - now apply uuid_set_indexed.
+  - now rewrite okey_indexed.
+  - now rewrite okey_indexed.
+  - apply indexed_NoDup.
+  - apply indexed_NoDup.
+  - intros e _ [].
+  - intros e g _ Hg _. apply mem_id_In. now apply in_map.
+  - simpl in H. rewrite H.
+    destruct (Nat.ltb 0 (length (id_unpaired (indexed ests) (indexed gts))) &&
+              negb (existsb (fun e => o_tlcam (snd e)) (id_unpaired (indexed ests) (indexed gts))));
+      [reflexivity|now rewrite app_nil_r].
+Qed.
+
+(* the declarative description, unfolded *)
+Lemma In_id_pairs es gs e g :
+  In (e, Some g) (id_pairs es gs) <->
+  In e es /\ In g gs /\ o_uuid (snd e) = o_uuid (snd g) /\ o_cam (snd e) = o_cam (snd g).
+Proof.
+  unfold id_pairs, id_partners. rewrite in_flat_map. split.
+  - intros (e' & He' & Hin). apply in_map_iff in Hin. destruct Hin as (g' & Heq & Hg').
+    inversion Heq; subst. apply filter_In in Hg'. destruct Hg' as [Hg' Hc]. apply cond_id_iff in Hc. tauto.
+  - intros (He & Hg & Hu & Hc). exists e. split; [assumption|]. apply in_map_iff. exists g. split; [reflexivity|].
+    apply filter_In. split; [assumption|]. apply cond_id_iff. tauto.
+Qed.
+
+Lemma id_pairs_all_some es gs e : ~ In (e, None) (id_pairs es gs).
+Proof.
+  unfold id_pairs. rewrite in_flat_map. intros (e' & _ & Hin). apply in_map_iff in Hin.
+  destruct Hin as (g & Heq & _). discriminate.
+Qed.
+
+Lemma In_id_unpaired es gs e :
+  In e (id_unpaired es gs) <->
+  In e es /\ forall g, In g gs -> ~ (o_uuid (snd e) = o_uuid (snd g) /\ o_cam (snd e) = o_cam (snd g)).
+Proof.
+  unfold id_unpaired. rewrite filter_In. split.
+  - intros [He Hn]. split; [assumption|]. intros g Hg Hc. apply cond_id_iff in Hc.
+    apply negb_true_iff in Hn.
+    assert (X : existsb (fun g0 => cond_id (snd e) (snd g0)) gs = true) by (apply existsb_exists; eauto).
+    congruence.
+  - intros [He Hn]. split; [assumption|]. apply negb_true_iff.
+    destruct (existsb (fun g0 => cond_id (snd e) (snd g0)) gs) eqn:X; [|reflexivity]. apply existsb_exists in X. destruct X as (g & Hg & Hc).
+    apply cond_id_iff in Hc. exfalso. eapply Hn; eauto.
+Qed.
+
+Lemma gts_of_fp L : gts_of (fp_results L) = [].
+Proof. induction L as [|a t IH]; simpl; auto. Qed.
+Lemma est_ids_fp L : est_ids (fp_results L) = map fst L.
+Proof. unfold est_ids, fp_results. rewrite map_map. reflexivity. Qed.
+
+Theorem id_match_spec ests gts :
+  all_uuid_set ests -> all_uuid_set gts -> NoDup (map uuid_cam ests) -> NoDup (map uuid_cam gts) ->
+  exists R, id_match ests gts = Ok R /\
+    (forall e g, In (e, Some g) R <->
+       In e (indexed ests) /\ In g (indexed gts) /\
+       o_uuid (snd e) = o_uuid (snd g) /\ o_cam (snd e) = o_cam (snd g)) /\
+    NoDup (est_ids R) /\ NoDup (gt_ids R) /\
+    (forall e, In (e, None) R <->
+       In e (id_unpaired (indexed ests) (indexed gts)) /\
+       existsb (fun x => o_tlcam (snd x)) (id_unpaired (indexed ests) (indexed gts)) = false).
+Proof.
+  intros Ue Ug Ke Kg. exists (id_spec ests gts). split; [now apply id_match_eq_spec|].
+  assert (Hm := id_match_eq_spec ests gts Ue Ug Ke Kg).
+  unfold id_match in Hm.
+  destruct (outer false cond_id (indexed ests) (indexed gts) [] (indexed ests) (indexed gts))
+    as [[[R1 E1] G1]|] eqn:HO; [|discriminate].
+  destruct (outer_Inv _ _ (indexed ests) (indexed gts) _ _ _ _ _ _ _ _ (indexed_NoDup ests) (indexed_NoDup gts)
+                      (incl_refl _) (incl_refl _) (Inv_init _ _) HO) as [[PE PG] _].
+  destruct (outer_id_spec (indexed gts) (indexed ests) [] [] (indexed gts)) as [G' H];
+    try (now apply uuid_set_indexed); try (now rewrite okey_indexed); try apply indexed_NoDup.
+  { intros e _ []. }
+  { intros e g _ Hg _. apply mem_id_In. now apply in_map. }
+  simpl in H. rewrite H in HO. inversion HO; subst R1 E1 G1. clear HO Hm H.
+  assert (NDE : NoDup (map fst (map fst (id_pairs (indexed ests) (indexed gts))) ++ map fst (id_unpaired (indexed ests) (indexed gts)))).
+  { rewrite <- map_app. eapply Permutation_NoDup; [apply Permutation_map; exact PE|apply indexed_NoDup]. }
+  assert (NDG : NoDup (gt_ids (id_pairs (indexed ests) (indexed gts)))).
+  { unfold gt_ids. destruct (perm_facts _ _ _ (indexed_NoDup gts) PG) as (N & _). exact N. }
+  unfold id_spec.
+  set (L := id_unpaired (indexed ests) (indexed gts)) in *.
+  set (PR := id_pairs (indexed ests) (indexed gts)) in *.
+  set (FP := if Nat.ltb 0 (length L) && negb (existsb (fun e => o_tlcam (snd e)) L) then fp_results L else []).
+  assert (Fa : forall e g, ~ In (e, Some g) FP).
+  { intros e g Hin. unfold FP in Hin. destruct (_ && _) in Hin; [|contradiction].
+    unfold fp_results in Hin. apply in_map_iff in Hin. destruct Hin as (? & Heq & _). discriminate. }
+  assert (Fb : forall e, In (e, None) FP <-> In e L /\ existsb (fun x => o_tlcam (snd x)) L = false).
+  { intros e. unfold FP. destruct (Nat.ltb 0 (length L) && negb (existsb (fun e => o_tlcam (snd e)) L)) eqn:Hc.
+    - apply andb_true_iff in Hc. destruct Hc as [_ Hc]. apply negb_true_iff in Hc. split.
+      + intros Hin. unfold fp_results in Hin. apply in_map_iff in Hin. destruct Hin as (x & Heq & Hx).
+        inversion Heq; subst. auto.
+      + intros [Hin _]. unfold fp_results. apply in_map_iff. exists e. auto.
+    - split; [intros []|]. intros [Hin Hex]. apply andb_false_iff in Hc. destruct Hc as [Hc|Hc].
+      + apply Nat.ltb_ge in Hc. destruct L; [contradiction|simpl in Hc; lia].
+      + rewrite Hex in Hc. discriminate. }
+  assert (Fc : est_ids FP = map fst L \/ est_ids FP = []).
+  { unfold FP. destruct (_ && _); [left; apply est_ids_fp|right; reflexivity]. }
+  assert (Fd : gts_of FP = []).
+  { unfold FP. destruct (_ && _); [apply gts_of_fp|reflexivity]. }
+  split; [|split; [|split]].
+  - intros e g. split.
+    + intros Hin. apply in_app_or in Hin. destruct Hin as [Hin|Hin]; [now apply In_id_pairs in Hin|].
+      exfalso. eapply Fa; eauto.
+    + intros Hs. apply in_or_app. left. now apply In_id_pairs.
+  - rewrite est_ids_app, est_ids_map. destruct Fc as [-> | ->]; [exact NDE|].
+    rewrite app_nil_r. eapply NoDup_app_l; exact NDE.
+  - rewrite gt_ids_app. unfold gt_ids at 2. rewrite Fd. simpl. rewrite app_nil_r. exact NDG.
+  - intros e. rewrite <- Fb. split.
+    + intros Hin. apply in_app_or in Hin. destruct Hin as [Hin|Hin]; [exfalso; eapply id_pairs_all_some; eauto|auto].
+    + intros Hin. apply in_or_app. now right.
+Qed.
+
+(* ------------------------------------------------------------------------------------------ *)
+(* scores                                                                                      *)
+(* ------------------------------------------------------------------------------------------ *)
+Definition TPs (rs : list result) : nat := cnt is_label_correct rs.
+Definition FPs (rs : list result) : nat := cnt (fun r => negb (is_label_correct r)) rs.
+
+Lemma tp_fp_spec : forall rs a b, tp_fp rs a b = (a + TPs rs, b + FPs rs).
+Proof.
+  unfold TPs, FPs, cnt. induction rs as [|r t IH]; intros a b; simpl.
+  - now rewrite !Nat.add_0_r.
+  - destruct (is_label_correct r); simpl; rewrite IH; f_equal; lia.
+Qed.
+
+Lemma TPs_FPs rs : TPs rs + FPs rs = length rs.
+Proof.
+  unfold TPs, FPs, cnt. induction rs as [|r t IH]; simpl; auto.
+  destruct (is_label_correct r); simpl; lia.
+Qed.
+
+Lemma TPs_le rs : TPs rs <= length rs.
+Proof. apply cnt_le_length. Qed.
+
+(* s is num/den, or inf when den = 0 *)
+Definition is_ratio (s : score) (num den : Q) : Prop :=
+  (den == 0 -> s = Inf)%Q /\ (~ den == 0 -> exists q, s = Fin q /\ q == num / den)%Q.
+
+Lemma is_ratio_den s n d d' : (d == d')%Q -> is_ratio s n d -> is_ratio s n d'.
+Proof.
+  intros E [H1 H2]. split.
+  - intros H. apply H1. now rewrite E.
+  - intros H. destruct H2 as (q & -> & Hq); [now rewrite E|]. exists q. split; [reflexivity|]. now rewrite <- E.
+Qed.
+
+Lemma inject_Z_zero d : (inject_Z d == 0)%Q <-> d = 0%Z.
+Proof.
+  split; [|intros ->; reflexivity]. intros H. unfold Qeq, inject_Z in H. simpl in H. lia.
+Qed.
+
+Lemma ratio_is_ratio a d : is_ratio (ratio a d) (Qnat a) (inject_Z d).
+Proof.
+  unfold ratio, is_ratio. destruct (Z.eqb_spec d 0) as [->|Hd]; split; intros H.
+  - reflexivity.
+  - exfalso. apply H. reflexivity.
+  - exfalso. apply Hd. now apply inject_Z_zero.
+  - eexists; split; reflexivity.
+Qed.
+
+Lemma inject_Z_sub a b : (inject_Z (a - b) == inject_Z a - inject_Z b)%Q.
+Proof. unfold Z.sub. rewrite inject_Z_plus, inject_Z_opp. reflexivity. Qed.
+
+Lemma Qnat_zero n : (Qnat n == 0)%Q <-> n = 0.
+Proof. unfold Qnat. rewrite inject_Z_zero. lia. Qed.
+
+Lemma accuracy_is_ratio N G TP :
+  is_ratio (accuracy_of N G TP) (Qnat TP) (Qnat N + Qnat G - Qnat TP).
+Proof.
+  unfold accuracy_of. eapply is_ratio_den; [|apply ratio_is_ratio].
+  rewrite inject_Z_sub, inject_Z_plus. reflexivity.
+Qed.
+
+Definition in_unit (s : score) : Prop := match s with Fin q => (0 <= q /\ q <= 1)%Q | _ => True end.
+
+Lemma ratio_unit a d : (Z.of_nat a <= d)%Z -> in_unit (ratio a d).
+Proof.
+  intros H. unfold ratio. destruct (Z.eqb_spec d 0) as [->|Hd]; simpl; [exact I|].
+  assert (Hp : (0 < inject_Z d)%Q) by (change 0%Q with (inject_Z 0); rewrite <- Zlt_Qlt; lia).
+  split.
+  - apply Qdiv_nonneg; [apply Qnat_nonneg|exact Hp].
+  - apply Qdiv_le_1; [exact Hp|]. unfold Qnat. rewrite <- Zle_Qle. exact H.
+Qed.
+
+Lemma f1_num_le p r : (0 <= p <= 1 -> 0 <= r <= 1 -> 0 <= (1 + 1) * p * r /\ (1 + 1) * p * r <= 1 * p + r)%Q.
+Proof. intros [? ?] [? ?]. split; nra. Qed.
+
+Lemma f1_accuracy_unit p r : in_unit p -> in_unit r -> in_unit (f1_accuracy p r).
+Proof.
+  destruct p as [p| |], r as [r| |]; simpl; auto. intros Hp Hr.
+  destruct (Qeqb_spec (1 * p + r) 0) as [E|NE]; simpl; [exact I|].
+  destruct (f1_num_le p r Hp Hr) as [H1 H2].
+  assert (0 < 1 * p + r)%Q by (destruct Hp, Hr; destruct (Qlt_le_dec 0 (1 * p + r)); [assumption|exfalso; apply NE; lra]).
+  split; [apply Qdiv_nonneg|apply Qdiv_le_1]; assumption.
+Qed.
+
+Lemma f1_summary_unit p r : in_unit p -> in_unit r -> in_unit (f1_summary p r).
+Proof.
+  destruct p as [p| |], r as [r| |]; simpl; auto. intros Hp Hr.
+  destruct (Qeqb_spec (p + r) 0) as [E|NE]; simpl; [exact I|].
+  destruct (f1_num_le p r Hp Hr) as [H1 H2].
+  assert (0 < p + r)%Q by (destruct Hp, Hr; destruct (Qlt_le_dec 0 (p + r)); [assumption|exfalso; apply NE; lra]).
+  split; [apply Qdiv_nonneg|apply Qdiv_le_1]; try assumption; lra.
+Qed.
+
+(* F1 of precision t/n and recall t/g is 2t/(n+g) *)
+Lemma f1_counting (t n g : Q) : (0 < t -> 0 < n -> 0 < g ->
+  (1 + 1) * (t / n) * (t / g) / (1 * (t / n) + t / g) == 2 * t / (n + g))%Q.
+Proof. intros. field. repeat split; nra. Qed.
+
+Lemma f1_counting' (t n g : Q) : (0 < t -> 0 < n -> 0 < g ->
+  2 * (t / n) * (t / g) / (t / n + t / g) == 2 * t / (n + g))%Q.
+Proof. intros. field. repeat split; nra. Qed.
+
+Lemma pr_sum_pos (t n g : Q) : (0 < t -> 0 < n -> 0 < g -> 0 < t / n + t / g)%Q.
+Proof.
+  intros. assert (0 < t / n)%Q by (apply Qlt_shift_div_l; lra). assert (0 < t / g)%Q by (apply Qlt_shift_div_l; lra). lra.
+Qed.
+
+Lemma classification_accuracy_fields rs g :
+  classification_accuracy rs g =
+  mkAcc (length rs) g (TPs rs) (FPs rs) (accuracy_of (length rs) g (TPs rs))
+        (ratio (TPs rs) (Z.of_nat (length rs))) (ratio (TPs rs) (Z.of_nat g))
+        (f1_accuracy (ratio (TPs rs) (Z.of_nat (length rs))) (ratio (TPs rs) (Z.of_nat g))).
+Proof. unfold classification_accuracy. rewrite tp_fp_spec. reflexivity. Qed.
+
+Lemma Qnat_pos' n : n <> 0 -> (0 < Qnat n)%Q.
+Proof. intros. apply Qnat_pos. lia. Qed.
+
+Lemma zero_div x : (Qnat 0 / x == 0)%Q.
+Proof. unfold Qdiv. change (Qnat 0) with 0%Q. ring. Qed.
+
+(* the two F1 formulas on precision = TP/N and recall = TP/G *)
+Lemma f1_accuracy_counts TP N G :
+  ((N = 0 \/ G = 0 \/ TP = 0) -> f1_accuracy (ratio TP (Z.of_nat N)) (ratio TP (Z.of_nat G)) = Inf) /\
+  (N <> 0 -> G <> 0 -> TP <> 0 ->
+   exists q, f1_accuracy (ratio TP (Z.of_nat N)) (ratio TP (Z.of_nat G)) = Fin q /\
+             (q == 2 * Qnat TP / (Qnat N + Qnat G))%Q).
+Proof.
+  unfold ratio.
+  destruct (Z.eqb_spec (Z.of_nat N) 0) as [EN|NN]; [split; [reflexivity|intros; lia]|].
+  destruct (Z.eqb_spec (Z.of_nat G) 0) as [EG|NG]; [split; [reflexivity|intros; lia]|].
+  fold (Qnat N). fold (Qnat G). simpl f1_accuracy.
+  assert (HN : (0 < Qnat N)%Q) by (apply Qnat_pos; lia).
+  assert (HG : (0 < Qnat G)%Q) by (apply Qnat_pos; lia).
+  destruct (Nat.eq_dec TP 0) as [->|NT].
+  - split; [|intros; lia]. intros _.
+    destruct (Qeqb_spec (1 * (Qnat 0 / Qnat N) + Qnat 0 / Qnat G) 0) as [E|NE]; [reflexivity|].
+    exfalso. apply NE. rewrite !zero_div. ring.
+  - assert (HT : (0 < Qnat TP)%Q) by (apply Qnat_pos; lia).
+    split; [intros [?|[?|?]]; lia|]. intros _ _ _.
+    destruct (Qeqb_spec (1 * (Qnat TP / Qnat N) + Qnat TP / Qnat G) 0) as [E|NE].
+    + exfalso. assert (X := pr_sum_pos _ _ _ HT HN HG). lra.
+    + eexists. split; [reflexivity|]. apply f1_counting; assumption.
+Qed.
+
+Lemma f1_summary_counts TP FP N G : TP + FP = N ->
+  ((N = 0 \/ G = 0) -> f1_summary (ratio TP (Z.of_nat TP + Z.of_nat FP)) (ratio TP (Z.of_nat G)) = NaN) /\
+  (N <> 0 -> G <> 0 -> TP = 0 -> f1_summary (ratio TP (Z.of_nat TP + Z.of_nat FP)) (ratio TP (Z.of_nat G)) = Inf) /\
+  (N <> 0 -> G <> 0 -> TP <> 0 ->
+   exists q, f1_summary (ratio TP (Z.of_nat TP + Z.of_nat FP)) (ratio TP (Z.of_nat G)) = Fin q /\
+             (q == 2 * Qnat TP / (Qnat N + Qnat G))%Q).
+Proof.
+  intros HS. replace (Z.of_nat TP + Z.of_nat FP)%Z with (Z.of_nat N) by lia. unfold ratio.
+  destruct (Z.eqb_spec (Z.of_nat N) 0) as [EN|NN].
+  { split; [reflexivity|]. split; intros; lia. }
+  destruct (Z.eqb_spec (Z.of_nat G) 0) as [EG|NG].
+  { split; [reflexivity|]. split; intros; lia. }
+  fold (Qnat N). fold (Qnat G). simpl f1_summary.
+  assert (HN : (0 < Qnat N)%Q) by (apply Qnat_pos; lia).
+  assert (HG : (0 < Qnat G)%Q) by (apply Qnat_pos; lia).
+  split; [intros [?|?]; lia|].
+  destruct (Nat.eq_dec TP 0) as [->|NT].
+  - split; [|intros; lia]. intros _ _ _.
+    destruct (Qeqb_spec (Qnat 0 / Qnat N + Qnat 0 / Qnat G) 0) as [E|NE]; [reflexivity|].
+    exfalso. apply NE. rewrite !zero_div. ring.
+  - assert (HT : (0 < Qnat TP)%Q) by (apply Qnat_pos; lia).
+    split; [intros; lia|]. intros _ _ _.
+    destruct (Qeqb_spec (Qnat TP / Qnat N + Qnat TP / Qnat G) 0) as [E|NE].
+    + exfalso. assert (X := pr_sum_pos _ _ _ HT HN HG). lra.
+    + eexists. split; [reflexivity|]. apply f1_counting'; assumption.
+Qed.
+
+(* ---- ClassificationAccuracy -------------------------------------------------------------- *)
+Theorem accuracy_counting_defs rs g :
+  let a := classification_accuracy rs g in
+  let N := length rs in
+  let TP := TPs rs in
+  a_num_res a = N /\ a_num_gt a = g /\ a_tp a = TP /\ a_fp a = FPs rs /\ TP + FPs rs = N /\
+  is_ratio (a_accuracy a) (Qnat TP) (Qnat N + Qnat g - Qnat TP) /\
+  is_ratio (a_precision a) (Qnat TP) (Qnat N) /\
+  is_ratio (a_recall a) (Qnat TP) (Qnat g) /\
+  ((N = 0 \/ g = 0 \/ TP = 0) -> a_f1 a = Inf) /\
+  (N <> 0 -> g <> 0 -> TP <> 0 -> exists q, a_f1 a = Fin q /\ (q == 2 * Qnat TP / (Qnat N + Qnat g))%Q).
+Proof.
+  cbv zeta. rewrite classification_accuracy_fields. simpl.
+  repeat split; auto using TPs_FPs; try apply accuracy_is_ratio; try apply ratio_is_ratio;
+    try apply (proj1 (f1_accuracy_counts _ _ _)); try apply (proj2 (f1_accuracy_counts _ _ _)).
+  all: try (destruct (accuracy_is_ratio (length rs) g (TPs rs)) as [A B]; assumption).
+  all: try (destruct (ratio_is_ratio (TPs rs) (Z.of_nat (length rs))) as [A B]; assumption).
+  all: try (destruct (ratio_is_ratio (TPs rs) (Z.of_nat g)) as [A B]; assumption).
+Qed.
+
+Definition acc_in_unit (a : accuracy) : Prop :=
+  in_unit (a_accuracy a) /\ in_unit (a_precision a) /\ in_unit (a_recall a) /\ in_unit (a_f1 a).
+
+Theorem accuracy_unit_interval rs g :
+  TPs rs <= g -> acc_in_unit (classification_accuracy rs g).
+Proof.
+  intros H. rewrite classification_accuracy_fields. unfold acc_in_unit. simpl.
+  assert (H2 := TPs_le rs).
+  assert (P : in_unit (ratio (TPs rs) (Z.of_nat (length rs)))) by (apply ratio_unit; lia).
+  assert (R : in_unit (ratio (TPs rs) (Z.of_nat g))) by (apply ratio_unit; lia).
+  repeat split; auto.
+  - unfold accuracy_of. apply ratio_unit. lia.
+  - now apply f1_accuracy_unit.
+Qed.
+
+Definition is_one (s : score) : Prop := exists q, s = Fin q /\ (q == 1)%Q.
+
+Theorem accuracy_all_one_when_perfect rs g :
+  0 < g -> length rs = g -> (forall r, In r rs -> is_label_correct r = true) ->
+  let a := classification_accuracy rs g in
+  is_one (a_accuracy a) /\ is_one (a_precision a) /\ is_one (a_recall a) /\ is_one (a_f1 a).
+Proof.
+  intros Hg HL Hall. cbv zeta.
+  assert (HT : TPs rs = g) by (unfold TPs; rewrite cnt_all; auto).
+  destruct (accuracy_counting_defs rs g) as (_ & _ & _ & _ & _ & [_ A] & [_ P] & [_ R] & _ & F).
+  cbv zeta in *. rewrite HL, HT in *.
+  assert (Hq : (0 < Qnat g)%Q) by (apply Qnat_pos; lia).
+  unfold is_one. repeat split.
+  - destruct A as (q & -> & Hq'); [lra|]. exists q. split; [reflexivity|]. rewrite Hq'. field. lra.
+  - destruct P as (q & -> & Hq'); [lra|]. exists q. split; [reflexivity|]. rewrite Hq'. field. lra.
+  - destruct R as (q & -> & Hq'); [lra|]. exists q. split; [reflexivity|]. rewrite Hq'. field. lra.
+  - destruct F as (q & -> & Hq'); try lia. exists q. split; [reflexivity|]. rewrite Hq'. field. lra.
+Qed.
+
+(* ---- ClassificationMetricsScore._summarize ------------------------------------------------ *)
+Definition Ntot (T : list nat) (rs : list result) : nat := list_sum (map (fun t => length (divide T rs t)) T).
+Definition Gtot (T : list nat) (gts : list obj) : nat := list_sum (map (num_gt_of gts) T).
+Definition TPtot (T : list nat) (rs : list result) : nat := list_sum (map (fun t => TPs (divide T rs t)) T).
+Definition FPtot (T : list nat) (rs : list result) : nat := list_sum (map (fun t => FPs (divide T rs t)) T).
+
+Lemma sum_by_map {A} (f : accuracy -> nat) (h : A -> accuracy) l :
+  sum_by f (map h l) = list_sum (map (fun t => f (h t)) l).
+Proof. induction l as [|a t IH]; simpl; auto. Qed.
+
+Lemma TPtot_FPtot T' T rs :
+  list_sum (map (fun t => TPs (divide T rs t)) T') + list_sum (map (fun t => FPs (divide T rs t)) T')
+  = list_sum (map (fun t => length (divide T rs t)) T').
+Proof.
+  induction T' as [|t T' IH]; simpl; auto. rewrite <- IH, <- (TPs_FPs (divide T rs t)). lia.
+Qed.
+
+Lemma summarize_fields T rs gts :
+  summarize (accuracies T rs gts) =
+  (accuracy_of (Ntot T rs) (Gtot T gts) (TPtot T rs),
+   ratio (TPtot T rs) (Z.of_nat (TPtot T rs) + Z.of_nat (FPtot T rs)),
+   ratio (TPtot T rs) (Z.of_nat (Gtot T gts)),
+   f1_summary (ratio (TPtot T rs) (Z.of_nat (TPtot T rs) + Z.of_nat (FPtot T rs)))
+              (ratio (TPtot T rs) (Z.of_nat (Gtot T gts)))).
+Proof.
+  unfold summarize, accuracies, Ntot, Gtot, TPtot, FPtot. rewrite !sum_by_map.
+  assert (E : forall (f : accuracy -> nat) (h : nat -> nat),
+             (forall t, f (classification_accuracy (divide T rs t) (num_gt_of gts t)) = h t) ->
+             list_sum (map (fun t => f (classification_accuracy (divide T rs t) (num_gt_of gts t))) T)
+             = list_sum (map h T)).
+  { intros f h Hf. f_equal. apply map_ext. exact Hf. }
+  rewrite (E a_num_res (fun t => length (divide T rs t))),
+          (E a_num_gt (num_gt_of gts)),
+          (E a_tp (fun t => TPs (divide T rs t))),
+          (E a_fp (fun t => FPs (divide T rs t)));
+    try (intros t; rewrite classification_accuracy_fields; reflexivity).
+  reflexivity.
+Qed.
+
+Theorem summary_counting_defs T rs gts a p r f :
+  summarize (accuracies T rs gts) = (a, p, r, f) ->
+  let N := Ntot T rs in let G := Gtot T gts in let TP := TPtot T rs in
+  TP + FPtot T rs = N /\
+  is_ratio a (Qnat TP) (Qnat N + Qnat G - Qnat TP) /\
+  is_ratio p (Qnat TP) (Qnat N) /\
+  is_ratio r (Qnat TP) (Qnat G) /\
+  ((N = 0 \/ G = 0) -> f = NaN) /\
+  (N <> 0 -> G <> 0 -> TP = 0 -> f = Inf) /\
+  (N <> 0 -> G <> 0 -> TP <> 0 -> exists q, f = Fin q /\ (q == 2 * Qnat TP / (Qnat N + Qnat G))%Q).
+Proof.
+  rewrite summarize_fields. intros H. inversion H; subst a p r f; clear H. cbv zeta.
+  assert (HS : TPtot T rs + FPtot T rs = Ntot T rs) by apply TPtot_FPtot.
+  split; [exact HS|]. split; [apply accuracy_is_ratio|]. split.
+  { eapply is_ratio_den; [|apply ratio_is_ratio]. rewrite inject_Z_plus. fold (Qnat (TPtot T rs)). fold (Qnat (FPtot T rs)).
+    rewrite <- Qnat_plus, HS. reflexivity. }
+  split; [apply ratio_is_ratio|].
+  exact (f1_summary_counts _ _ _ (Gtot T gts) HS).
+Qed.
+
+Theorem summary_unit_interval T rs gts a p r f :
+  summarize (accuracies T rs gts) = (a, p, r, f) ->
+  TPtot T rs <= Gtot T gts ->
+  in_unit a /\ in_unit p /\ in_unit r /\ in_unit f.
+Proof.
+  rewrite summarize_fields. intros H HL. inversion H; subst a p r f; clear H.
+  assert (HS : TPtot T rs + FPtot T rs = Ntot T rs) by apply TPtot_FPtot.
+  assert (P : in_unit (ratio (TPtot T rs) (Z.of_nat (TPtot T rs) + Z.of_nat (FPtot T rs)))) by (apply ratio_unit; lia).
+  assert (R : in_unit (ratio (TPtot T rs) (Z.of_nat (Gtot T gts)))) by (apply ratio_unit; lia).
+  repeat split; auto.
+  - unfold accuracy_of. apply ratio_unit. lia.
+  - now apply f1_summary_unit.
+Qed.
+
+Theorem summary_all_one_when_perfect T rs gts a p r f :
+  summarize (accuracies T rs gts) = (a, p, r, f) ->
+  0 < Gtot T gts -> Ntot T rs = Gtot T gts -> TPtot T rs = Gtot T gts ->
+  is_one a /\ is_one p /\ is_one r /\ is_one f.
+Proof.
+  intros H Hg HN HT.
+  destruct (summary_counting_defs T rs gts a p r f H) as (_ & [_ A] & [_ P] & [_ R] & _ & _ & F).
+  cbv zeta in *. rewrite HN, HT in *.
+  assert (Hq : (0 < Qnat (Gtot T gts))%Q) by (apply Qnat_pos; lia).
+  unfold is_one. repeat split.
+  - destruct A as (q & -> & Hq'); [lra|]. exists q. split; [reflexivity|]. rewrite Hq'. field. lra.
+  - destruct P as (q & -> & Hq'); [lra|]. exists q. split; [reflexivity|]. rewrite Hq'. field. lra.
+  - destruct R as (q & -> & Hq'); [lra|]. exists q. split; [reflexivity|]. rewrite Hq'. field. lra.
+  - destruct F as (q & -> & Hq'); try lia. exists q. split; [reflexivity|]. rewrite Hq'. field. lra.
+Qed.
+
+(* ---- TP never exceeds the number of ground truths for the matchers' outputs ---------------- *)
+Lemma TPs_le_gts_of rs : TPs rs <= length (gts_of rs).
+Proof.
+  unfold TPs, cnt. induction rs as [|r t IH]; simpl; auto.
+  unfold is_label_correct at 1. destruct (snd r); simpl; [|exact IH].
+  destruct (o_fp (snd i) || label_eqb (snd (fst r)) (snd i)); simpl; lia.
+Qed.
+
+Lemma tp_le_gt gts R :
+  NoDup (gt_ids R) -> (forall e g, In (e, Some g) R -> In g (indexed gts)) -> TPs R <= length gts.
+Proof.
+  intros ND Hin. eapply Nat.le_trans; [apply TPs_le_gts_of|].
+  assert (X : length (map fst (gts_of R)) <= length (map fst (indexed gts))).
+  2:{ rewrite !map_length, indexed_length in X. exact X. }
+  apply NoDup_incl_length; [exact ND|].
+  intros i Hi. apply in_map_iff in Hi. destruct Hi as (g & <- & Hg). apply in_map.
+  unfold gts_of in Hg. apply in_flat_map in Hg. destruct Hg as (r & Hr & Hg).
+  destruct r as [e [g'|]]; simpl in Hg; [|contradiction]. destruct Hg as [<-|[]]. eapply Hin; eauto.
+Qed.
+
+Theorem tlr_tp_le_gt uf ests gts R : tlr_match uf ests gts = Ok R -> TPs R <= length gts.
+Proof.
+  intros H. destruct (tlr_one_to_one _ _ _ _ H) as (_ & ND & Hp). apply tp_le_gt; [exact ND|].
+  intros e g Hin. destruct (Hp _ Hin) as (e' & g' & Heq & _ & Hg). inversion Heq; subst. exact Hg.
+Qed.
+
+Theorem id_tp_le_gt ests gts :
+  all_uuid_set ests -> all_uuid_set gts -> NoDup (map uuid_cam ests) -> NoDup (map uuid_cam gts) ->
+  exists R, id_match ests gts = Ok R /\ TPs R <= length gts.
+Proof.
+  intros Ue Ug Ke Kg. destruct (id_match_spec ests gts Ue Ug Ke Kg) as (R & HR & Hp & _ & ND & _).
+  exists R. split; [exact HR|]. apply tp_le_gt; [exact ND|]. intros e g Hin. apply Hp in Hin. tauto.
+Qed.
+
+(* ---- the dispatch of get_object_results ---------------------------------------------------- *)
+Lemma get_results_no_estimates tlr uf gts : get_object_results tlr uf [] gts = Ok [].
+Proof. reflexivity. Qed.
+
+Lemma get_results_no_ground_truth tlr uf ests :
+  ests <> [] -> get_object_results tlr uf ests [] = Ok (fp_results (indexed ests)).
+Proof. destruct ests; [congruence|reflexivity]. Qed.
+
+Lemma get_results_dispatch tlr uf ests gts :
+  ests <> [] -> gts <> [] ->
+  get_object_results tlr uf ests gts = if tlr then tlr_match uf ests gts else id_match ests gts.
+Proof. destruct ests; [congruence|]. destruct gts; [congruence|reflexivity]. Qed.
+
+(* ---- success and rejection ------------------------------------------------------------------ *)
+Lemma inner_guard_ok cond e : forall gs R E G,
+  uuid_set e -> (forall g, In g gs -> uuid_set g) ->
+  exists st, inner true cond e gs R E G = Ok st.
+Proof.
+  induction gs as [|g gs IH]; intros R E G Ue Ug; simpl; [eauto|].
+  rewrite (uuid_set_false e Ue), (uuid_set_false g (Ug g (or_introl eq_refl))). simpl.
+  assert (Ug' : forall g', In g' gs -> uuid_set g') by (intros; apply Ug; now right).
+  destruct (cond (snd e) (snd g) && (mem_id (fst e) E && mem_id (fst g) G)) eqn:Hc; [|apply IH; auto].
+  apply andb_true_iff in Hc. destruct Hc as [_ Hc]. apply andb_true_iff in Hc. destruct Hc as [H1 H2].
+  destruct (mem_id_remove _ _ H1) as [E1 ->]. destruct (mem_id_remove _ _ H2) as [G1 ->]. apply IH; auto.
+Qed.
+
+Lemma outer_guard_ok cond gs : forall es R E G,
+  (forall e, In e es -> uuid_set e) -> (forall g, In g gs -> uuid_set g) ->
+  exists st, outer true cond es gs R E G = Ok st.
+Proof.
+  induction es as [|e es IH]; intros R E G Ue Ug; simpl; [eauto|].
+  destruct (inner_guard_ok cond e gs R E G (Ue e (or_introl eq_refl)) Ug) as [[[R1 E1] G1] ->].
+  apply IH; auto. intros; apply Ue; now right.
+Qed.
+
+Theorem tlr_match_ok uf ests gts :
+  all_uuid_set ests -> all_uuid_set gts -> exists R, tlr_match uf ests gts = Ok R.
+Proof.
+  intros Ue Ug. unfold tlr_match, tlr_stage1.
+  destruct (outer_guard_ok (cond_label uf) (indexed gts) (indexed ests) [] (indexed ests) (indexed gts))
+    as [[[R1 E1] G1] H1]; try (now apply uuid_set_indexed).
+  rewrite H1. destruct (outer_shrink _ _ _ _ _ _ _ _ _ _ H1) as [I1 I2].
+  destruct (outer_guard_ok cond_id G1 E1 R1 E1 G1) as [[[R2 E2] G2] H2].
+  - intros e He. apply (uuid_set_indexed ests Ue). auto.
+  - intros g Hg. apply (uuid_set_indexed gts Ug). auto.
+  - rewrite H2. eauto.
+Qed.
+
+Lemma inner_ok_uuid guard cond e : forall gs R E G st,
+  inner guard cond e gs R E G = Ok st -> forall g, In g gs -> uuid_set e /\ uuid_set g.
+Proof.
+  induction gs as [|g0 gs IH]; intros R E G st H g Hg; simpl in *; [contradiction|].
+  destruct (uuid_is_none e || uuid_is_none g0) eqn:Hu; [discriminate|].
+  apply orb_false_iff in Hu. destruct Hu as [H1 H2].
+  assert (X : uuid_set e /\ uuid_set g0).
+  { unfold uuid_set, uuid_is_none in *. destruct (o_uuid (snd e)), (o_uuid (snd g0)); try discriminate.
+    split; discriminate. }
+  destruct Hg as [<-|Hg]; [exact X|].
+  destruct (cond (snd e) (snd g0) && (if guard then mem_id (fst e) E && mem_id (fst g0) G else true)).
+  - destruct (remove_id (fst e) E); [|discriminate]. destruct (remove_id (fst g0) G); [|discriminate]. eauto.
+  - eauto.
+Qed.
+
+Lemma outer_ok_uuid guard cond gs : forall es R E G st,
+  outer guard cond es gs R E G = Ok st -> forall e g, In e es -> In g gs -> uuid_set e /\ uuid_set g.
+Proof.
+  induction es as [|e0 es IH]; intros R E G st H e g He Hg; simpl in *; [contradiction|].
+  destruct (inner guard cond e0 gs R E G) as [[[R1 E1] G1]|] eqn:Hi; [|discriminate].
+  destruct He as [<-|He]; [eapply inner_ok_uuid; eauto|eauto].
+Qed.
+
+(* an object without uuid is never silently accepted (both lists non-empty, so that the loops look at it) *)
+Theorem uuid_none_rejected tlr uf ests gts R :
+  ests <> [] -> gts <> [] -> get_object_results tlr uf ests gts = Ok R ->
+  all_uuid_set ests /\ all_uuid_set gts.
+Proof.
+  intros He Hg H. rewrite get_results_dispatch in H; auto.
+  assert (X : exists guard cond st, outer guard cond (indexed ests) (indexed gts) [] (indexed ests) (indexed gts) = Ok st).
+  { destruct tlr.
+    - unfold tlr_match, tlr_stage1 in H.
+      destruct (outer true (cond_label uf) (indexed ests) (indexed gts) [] (indexed ests) (indexed gts)) eqn:H1;
+        [eauto|discriminate].
+    - unfold id_match in H.
+      destruct (outer false cond_id (indexed ests) (indexed gts) [] (indexed ests) (indexed gts)) eqn:H1;
+        [eauto|discriminate]. }
+  destruct X as (guard & cond & st & HO).
+  assert (Hall := outer_ok_uuid _ _ _ _ _ _ _ _ HO).
+  destruct ests as [|e0 ests']; [congruence|]. destruct gts as [|g0 gts']; [congruence|].
+  split; intros o Ho.
+  - apply In_nth_error in Ho. destruct Ho as [i Hi]. apply In_indexed in Hi.
+    apply (Hall (i, o) (0, g0)); [exact Hi|now left].
+  - apply In_nth_error in Ho. destruct Ho as [i Hi]. apply In_indexed in Hi.
+    apply (Hall (0, e0) (i, o)); [now left|exact Hi].
+Qed.
+
+(* ---- per label: TP never exceeds the number of ground truths of that label ------------------- *)
+Lemma gts_of_filter_incl f R : incl (gts_of (filter f R)) (gts_of R).
+Proof.
+  induction R as [|r R IH]; simpl; [apply incl_refl|].
+  destruct (f r); simpl.
+  - intros x Hx. apply in_app_or in Hx. apply in_or_app. destruct Hx; [now left|right; auto].
+  - intros x Hx. apply in_or_app. right. auto.
+Qed.
+
+Lemma gts_of_filter_NoDup f R : NoDup (map fst (gts_of R)) -> NoDup (map fst (gts_of (filter f R))).
+Proof.
+  induction R as [|r R IH]; simpl; intros ND; [constructor|].
+  rewrite map_app in ND.
+  assert (ND' := NoDup_app_r _ _ ND).
+  destruct (f r); simpl; [|auto].
+  rewrite map_app. destruct (snd r) as [g|]; simpl in *; [|auto].
+  inversion ND as [|? ? Hn _]; subst. constructor; [|auto].
+  intros Hin. apply Hn. apply in_map_iff in Hin. destruct Hin as (x & Hx & Hin).
+  apply in_map_iff. exists x. split; [assumption|]. now apply gts_of_filter_incl in Hin.
+Qed.
+
+Lemma all_correct_length L : (forall r, In r L -> is_label_correct r = true) -> length L = length (gts_of L).
+Proof.
+  induction L as [|r L IH]; simpl; intros H; [reflexivity|].
+  assert (Hr := H r (or_introl eq_refl)). unfold is_label_correct in Hr.
+  rewrite app_length. destruct (snd r); [|discriminate]. simpl. f_equal. apply IH. auto.
+Qed.
+
+Lemma filter_indexed_length (f : obj -> bool) : forall l k,
+  length (filter (fun x : iobj => f (snd x)) (indexed_from k l)) = length (filter f l).
+Proof. induction l as [|o t IH]; intros k; simpl; auto. destruct (f o); simpl; auto. Qed.
+
+Lemma mem_nat_In x l : mem_nat x l = true <-> In x l.
+Proof.
+  induction l as [|y t IH]; simpl; [split; [discriminate|tauto]|].
+  destruct (Nat.eqb_spec y x); [tauto|]. rewrite IH. split; [tauto|]. intros [?|?]; [contradiction|assumption].
+Qed.
+
+Lemma bucket_tp_le T R gts t :
+  In t T -> (forall g, In g gts -> o_fp g = false) ->
+  NoDup (gt_ids R) -> (forall e g, In (e, Some g) R -> In g (indexed gts)) ->
+  TPs (divide T R t) <= num_gt_of gts t.
+Proof.
+  intros Ht Hfp ND Hin. unfold TPs, cnt, divide, num_gt_of.
+  set (b := fun r : result => match bucket_label T r with Some l => Nat.eqb l t | None => false end).
+  set (Rt := filter is_label_correct (filter b R)).
+  rewrite (all_correct_length Rt) by (intros r Hr; apply filter_In in Hr; tauto).
+  rewrite <- (filter_indexed_length (fun g => Nat.eqb (o_label g) t) gts 0). fold (indexed gts).
+  assert (X : length (map fst (gts_of Rt))
+               <= length (map fst (filter (fun x : iobj => Nat.eqb (o_label (snd x)) t) (indexed gts)))).
+  2:{ rewrite !map_length in X. exact X. }
+  apply NoDup_incl_length.
+  - unfold Rt. apply gts_of_filter_NoDup, gts_of_filter_NoDup. exact ND.
+  - intros i Hi. apply in_map_iff in Hi. destruct Hi as (g & <- & Hg). apply in_map.
+    unfold gts_of in Hg. apply in_flat_map in Hg. destruct Hg as (r & Hr & Hg).
+    destruct r as [e [g'|]]; simpl in Hg; [|contradiction]. destruct Hg as [<-|[]].
+    apply filter_In in Hr. destruct Hr as [Hr Hc]. apply filter_In in Hr. destruct Hr as [Hr Hb].
+    assert (Hg' := Hin _ _ Hr). apply filter_In. split; [exact Hg'|].
+    assert (Hfp' : o_fp (snd g') = false).
+    { apply Hfp. rewrite <- (indexed_objs gts). now apply in_map. }
+    unfold is_label_correct in Hc. simpl in Hc. rewrite Hfp' in Hc. simpl in Hc.
+    unfold label_eqb in Hc. apply Nat.eqb_eq in Hc.
+    unfold b, bucket_label in Hb. simpl in Hb.
+    destruct (mem_nat (o_label (snd e)) T) eqn:M.
+    + rewrite <- Hc. exact Hb.
+    + exact Hb.
+Qed.
+
+Lemma list_sum_le (f g : nat -> nat) T : (forall t, In t T -> f t <= g t) -> list_sum (map f T) <= list_sum (map g T).
+Proof.
+  induction T as [|t T IH]; simpl; intros H; [lia|].
+  assert (f t <= g t) by (apply H; now left). assert (list_sum (map f T) <= list_sum (map g T)) by (apply IH; intros; apply H; now right). lia.
+Qed.
+
+Lemma total_tp_le T R gts :
+  (forall g, In g gts -> o_fp g = false) ->
+  NoDup (gt_ids R) -> (forall e g, In (e, Some g) R -> In g (indexed gts)) ->
+  TPtot T R <= Gtot T gts.
+Proof.
+  intros Hfp ND Hin. unfold TPtot, Gtot. apply list_sum_le. intros t Ht. now apply bucket_tp_le.
+Qed.
+
+(* the traffic-light pipeline: summary scores are in [0,1] whenever they are numbers *)
+Theorem tlr_summary_unit_interval uf ests gts R T a p r f :
+  tlr_match uf ests gts = Ok R -> (forall g, In g gts -> o_fp g = false) ->
+  summarize (accuracies T R gts) = (a, p, r, f) ->
+  in_unit a /\ in_unit p /\ in_unit r /\ in_unit f.
+Proof.
+  intros H Hfp HS. eapply summary_unit_interval; [exact HS|].
+  destruct (tlr_one_to_one _ _ _ _ H) as (_ & ND & Hp). apply total_tp_le; auto.
+  intros e g Hin. destruct (Hp _ Hin) as (e' & g' & Heq & _ & Hg). inversion Heq; subst. exact Hg.
+Qed.
+
+Theorem id_summary_unit_interval ests gts T :
+  all_uuid_set ests -> all_uuid_set gts -> NoDup (map uuid_cam ests) -> NoDup (map uuid_cam gts) ->
+  (forall g, In g gts -> o_fp g = false) ->
+  exists R, id_match ests gts = Ok R /\
+    forall a p r f, summarize (accuracies T R gts) = (a, p, r, f) ->
+                    in_unit a /\ in_unit p /\ in_unit r /\ in_unit f.
+Proof.
+  intros Ue Ug Ke Kg Hfp. destruct (id_match_spec ests gts Ue Ug Ke Kg) as (R & HR & Hp & _ & ND & _).
+  exists R. split; [exact HR|]. intros a p r f HS. eapply summary_unit_interval; [exact HS|].
+  apply total_tp_le; auto. intros e g Hin. apply Hp in Hin. tauto.
+Qed.
